@@ -30,11 +30,13 @@ Definition lchange (B : N → request → Prop) (hosts : gmap N fhost) (hist : g
 (* what the invariant knows about every pending request beyond [mharmless]: the fence of a change request is the
    version of an entry of the history; the id of a KILL request has been used *)
 Definition qextra (hist : gmap N (list hentry)) (q : request) : Prop :=
-  (is_change q = true → q_ccid q ≤ cur_version (hist_of hist (q_shard q))) ∧
-  (is_kill q = true → ∃ y, q_members q = [y] ∧ used_in (hist_of hist (q_shard q)) y = true).
+  (is_change q = true → ∀ h, hist !! q_shard q = Some h → q_ccid q ≤ cur_version h) ∧
+  (is_kill q = true → ∃ y, q_members q = [y] ∧ ∀ h, hist !! q_shard q = Some h → used_in h y = true).
 
-Definition bq (B : N → request → Prop) (hosts : gmap N fhost) (hist : gmap N (list hentry)) (a : N) (q : request) : Prop :=
-  (mharmless hist a q ∧ qextra hist q) ∨ lchange B hosts hist a q.
+(* [R q]: what the Drummer DB knows about a live request (its fence is the version of Drummer's view, every member the
+   view shows has reported) - constant while the NodeHosts execute *)
+Definition bq (B : N → request → Prop) (R : request → Prop) (hosts : gmap N fhost) (hist : gmap N (list hentry)) (a : N) (q : request) : Prop :=
+  (mharmless hist a q ∧ qextra hist q) ∨ (lchange B hosts hist a q ∧ R q).
 
 (* the classification of a request depends on the history of its shard only *)
 Lemma mharmless_frame hist hist' a q :
@@ -50,7 +52,7 @@ Proof.
 Qed.
 
 Lemma qextra_frame hist hist' q : hist' !! q_shard q = hist !! q_shard q → qextra hist q → qextra hist' q.
-Proof. intros He. unfold qextra, hist_of. by rewrite He. Qed.
+Proof. intros He. unfold qextra. by rewrite He. Qed.
 
 Lemma lchange_frame B hosts hosts' hist hist' a q :
   hist' !! q_shard q = hist !! q_shard q →
@@ -130,3 +132,1289 @@ Proof.
     destruct (fh_reps fh !! (q_shard q, rid)) as [lr|] eqn:Ek; [|exact Hsame]. destruct (lr_running lr); [|exact Hsame].
     apply (Hset fh); [done|]. intros k [lr0 Hk]. left. apply lookup_delete_Some in Hk as [_ Hk]. by eexists.
 Qed.
+
+(** * applying a membership change: the host-side class relative to the NEW history *)
+Definition members_nz (hist : gmap N (list hentry)) : Prop :=
+  ∀ s h rid a, hist !! s = Some h → cur_members h !! rid = Some a → rid ≠ 0 ∧ a ≠ 0.
+
+Lemma stray_ok_frame hist hist' a s rid lr : hist' !! s = hist !! s → stray_ok hist a s rid lr → stray_ok hist' a s rid lr.
+Proof. intros He (h & Hh & Hrest). exists h. by rewrite He. Qed.
+
+Lemma hmend_append sz hist hosts s (hs : list hentry) (e : hentry) :
+  hist_wf sz (e :: hs) → hist !! s = Some hs → hs ≠ [] →
+  HMend hist hosts → members_nz hist → e.1 = cur_version hs + 1 →
+  (∀ a fh rid lr, hosts !! a = Some fh → fh_reps fh !! (s, rid) = Some lr → lr_ver lr ≤ cur_version hs) →
+  ((∃ x t, e.2 = <[x := t]> (cur_members hs) ∧ x ≠ 0 ∧ t ≠ 0 ∧ is_Some (hosts !! t) ∧
+           (∀ fh rid, hosts !! t = Some fh → fh_reps fh !! (s, rid) = None) ∧
+           (∀ a fh, hosts !! a = Some fh → fh_reps fh !! (s, x) = None)) ∨
+   (∃ y, e.2 = delete y (cur_members hs) ∧ is_Some (cur_members hs !! y) ∧ s ≠ 0 ∧ y ≠ 0)) →
+  HMend (<[s := e :: hs]> hist) hosts ∧ members_nz (<[s := e :: hs]> hist).
+Proof.
+  intros Hw Hs Hne0 HH Hnz He Hver Hkind. set (hist' := <[s := e :: hs]> hist).
+  assert (Hl : ∀ s' h', hist' !! s' = Some h' → (s' = s ∧ h' = e :: hs) ∨ (s' ≠ s ∧ hist !! s' = Some h')).
+  { intros s' h'. unfold hist'. destruct (decide (s' = s)) as [->|Hne]; [rewrite lookup_insert; intros [= <-]; by left|].
+    rewrite lookup_insert_ne by done. by right. }
+  assert (Hmok : mem_ok sz (cur_members hs)).
+  { apply (hist_wf_mem_ok _ _ Hw (cur_version hs, cur_members hs)). right. by apply cur_in. }
+  split; [split|].
+  - apply (hm_up _ _ HH).
+  - intros s' h' rid a Hh' Hm. destruct (Hl _ _ Hh') as [[-> ->]|[Hne Hh]]; [|by apply (hm_hosts _ _ HH s' h' rid a)].
+    cbn [cur_members snd] in Hm. destruct Hkind as [(x & t & Hee & _ & _ & Ht & _)|(y & Hee & _)]; rewrite Hee in Hm.
+    + destruct (decide (rid = x)) as [->|Hnx]; [rewrite lookup_insert in Hm; by injection Hm as <-|].
+      rewrite lookup_insert_ne in Hm by done. by apply (hm_hosts _ _ HH s hs rid a).
+    + apply lookup_delete_Some in Hm as [_ Hm]. by apply (hm_hosts _ _ HH s hs rid a).
+  - intros a fh s' rid lr h' a' Ha Hk Hh' Hm. destruct (Hl _ _ Hh') as [[-> ->]|[Hne Hh]]; [|by apply (hm_home _ _ HH a fh s' rid lr h' a')].
+    cbn [cur_members snd] in Hm. destruct Hkind as [(x & t & Hee & _ & _ & _ & _ & Hx)|(y & Hee & _)]; rewrite Hee in Hm.
+    + destruct (decide (rid = x)) as [->|Hnx]; [by rewrite (Hx a fh Ha) in Hk|].
+      rewrite lookup_insert_ne in Hm by done. by apply (hm_home _ _ HH a fh s rid lr hs a').
+    + apply lookup_delete_Some in Hm as [_ Hm]. by apply (hm_home _ _ HH a fh s rid lr hs a').
+  - intros a fh s' rid lr Ha Hk Hr.
+    destruct (decide (s' = s)) as [->|Hne].
+    2:{ destruct (hm_nostray _ _ HH a fh s' rid lr Ha Hk Hr) as [(h0 & Hh0 & Hm0)|Hst].
+        - left. exists h0. unfold hist'. by rewrite lookup_insert_ne.
+        - right. apply (stray_ok_frame hist); [unfold hist'; by rewrite lookup_insert_ne|done]. }
+    assert (Hh' : hist' !! s = Some (e :: hs)) by (unfold hist'; by rewrite lookup_insert).
+    destruct (hm_nostray _ _ HH a fh s rid lr Ha Hk Hr) as [(h0 & Hh0 & [b Hm0])|(h0 & Hh0 & Hnm & Hlt & Hno & Hs0 & Hr0 & Ha0)];
+      assert (h0 = hs) as -> by congruence.
+    + (* was a member *)
+      destruct Hkind as [(x & t & Hee & _)|(y & Hee & Hy & Hs0 & Hy0)].
+      * left. exists (e :: hs). split; [done|]. cbn. rewrite Hee. destruct (decide (rid = x)) as [->|Hnx]; [rewrite lookup_insert; by eexists|].
+        rewrite lookup_insert_ne by done. by eexists.
+      * destruct (decide (rid = y)) as [->|Hny].
+        -- right. exists (e :: hs). split; [done|]. cbn [cur_members cur_version snd fst]. rewrite Hee.
+           split; [by rewrite lookup_delete|]. split; [pose proof (Hver a fh y lr Ha Hk); lia|].
+           assert (b = a) as -> by (by apply (hm_home _ _ HH a fh s y lr hs b)).
+           split.
+           { intros r' Hr'. apply lookup_delete_Some in Hr' as [Hne' Hr']. destruct Hmok as [_ Hinj]. apply Hne'. by apply (Hinj y r' a). }
+           destruct (Hnz s hs y a Hs Hm0). done.
+        -- left. exists (e :: hs). split; [done|]. cbn. rewrite Hee, lookup_delete_ne by done. by eexists.
+    + (* was a stray *)
+      right. exists (e :: hs). split; [done|]. cbn [cur_members cur_version snd fst].
+      destruct Hkind as [(x & t & Hee & _ & _ & _ & Ht & Hx)|(y & Hee & _)]; rewrite Hee.
+      * assert (rid ≠ x) by (intros ->; by rewrite (Hx a fh Ha) in Hk).
+        split; [by rewrite lookup_insert_ne|]. split; [lia|]. split; [|done].
+        intros r' Hr'. destruct (decide (r' = x)) as [->|Hnx].
+        -- rewrite lookup_insert in Hr'. injection Hr' as ->. by rewrite (Ht fh rid Ha) in Hk.
+        -- rewrite lookup_insert_ne in Hr' by done. by apply (Hno r').
+      * split; [apply lookup_delete_None; by right|]. split; [lia|]. split; [|done].
+        intros r' Hr'. apply lookup_delete_Some in Hr' as [_ Hr']. by apply (Hno r').
+  - intros a fh s' rid lr h' Ha Hk Hh' Hnm. destruct (Hl _ _ Hh') as [[-> ->]|[Hne Hh]]; [|by apply (hm_old _ _ HH a fh s' rid lr h')].
+    left. cbn [cur_version fst]. pose proof (Hver a fh rid lr Ha Hk). lia.
+  - intros s' h' rid a Hh' Hm. destruct (Hl _ _ Hh') as [[-> ->]|[Hne Hh]]; [|by apply (Hnz s' h' rid a)].
+    cbn [cur_members snd] in Hm. destruct Hkind as [(x & t & Hee & Hx0 & Ht0 & _)|(y & Hee & _)]; rewrite Hee in Hm.
+    + destruct (decide (rid = x)) as [->|Hnx]; [rewrite lookup_insert in Hm; by injection Hm as <-|].
+      rewrite lookup_insert_ne in Hm by done. by apply (Hnz s hs rid a).
+    + apply lookup_delete_Some in Hm as [_ Hm]. by apply (Hnz s hs rid a).
+Qed.
+
+(* the proposer's NodeHost after the change: its running members of the shard know the new version *)
+Lemma learn_local_lookup2 reps s M v k lr' :
+  learn_local reps s M v !! k = Some lr' →
+  ∃ lr, reps !! k = Some lr ∧ (lr' = lr ∨ (k.1 = s ∧ lr_running lr = true ∧ is_member M k.2 = true ∧ lr' = mkLRep true v)).
+Proof.
+  unfold learn_local. rewrite map_lookup_imap. destruct (reps !! k) as [lr|]; [|done]. cbn.
+  destruct (bool_decide (k.1 = s)) eqn:E; cbn [andb]; [|intros [= <-]; eauto].
+  apply bool_decide_eq_true in E. destruct (lr_running lr) eqn:Er; cbn [andb]; [|intros [= <-]; eauto].
+  destruct (is_member M k.2) eqn:Em; intros [= <-]; eauto 10.
+Qed.
+
+Lemma learn_local_knows reps s M v rid lr :
+  reps !! (s, rid) = Some lr → lr_running lr = true → is_member M rid = true →
+  learn_local reps s M v !! (s, rid) = Some (mkLRep true v).
+Proof.
+  intros Hk Hr Hm. unfold learn_local. rewrite map_lookup_imap, Hk. cbn. rewrite bool_decide_eq_true_2 by done. by rewrite Hr, Hm.
+Qed.
+
+Lemma learn_local_other reps s M v k : k.1 ≠ s → learn_local reps s M v !! k = reps !! k.
+Proof.
+  intros Hne. unfold learn_local. rewrite map_lookup_imap. destruct (reps !! k) as [lr|]; [|done]. cbn.
+  by rewrite bool_decide_eq_false_2.
+Qed.
+
+Lemma running_of_elem reps s rid : rid ∈ running_of reps s ↔ ∃ lr, reps !! (s, rid) = Some lr ∧ lr_running lr = true.
+Proof.
+  unfold running_of. rewrite elem_of_list_fmap. split.
+  - intros ([[s0 r0] lr] & -> & Hin). apply elem_of_list_filter in Hin as [[Hs Hr] Hin]. cbn in Hs, Hr. subst s0.
+    apply elem_of_map_to_list in Hin. by exists lr.
+  - intros (lr & Hk & Hr). exists ((s, rid), lr). split; [done|]. apply elem_of_list_filter. split; [done|]. by apply elem_of_map_to_list.
+Qed.
+
+Lemma hmend_proposer hist hosts h fh reps' s :
+  HMend hist hosts → hosts !! h = Some fh →
+  (∀ k lr', reps' !! k = Some lr' →
+     ∃ lr, fh_reps fh !! k = Some lr ∧ (lr' = lr ∨ (k.1 = s ∧ ∃ h0, hist !! s = Some h0 ∧ is_Some (cur_members h0 !! k.2)))) →
+  HMend hist (set_reps hosts h reps').
+Proof.
+  intros HH Hfh Hr. unfold set_reps. rewrite Hfh. apply hmend_insert; [done|done|].
+  intros k lr' Hk. destruct (Hr k lr' Hk) as (lr & Hlr & [->|(Hks & h0 & Hh0 & [b Hb])]).
+  - left. exists lr. split; [done|]. split; [done|]. by left.
+  - right. exists h0. rewrite Hks. split; [done|]. destruct k as [s0 rid]. cbn in Hks, Hb |- *. subst s0.
+    assert (b = h) as -> by (by apply (hm_home _ _ HH h fh s rid lr h0 b)). done.
+Qed.
+
+(** * one request *)
+Record XB (B : N → request → Prop) (R : request → Prop) (x : xstate) : Prop := mkXB {
+  xb_hm : HMend x.2 x.1;
+  xb_nz : members_nz x.2;
+  xb_b : ∀ a q, B a q → bq B R x.1 x.2 a q }.
+
+(* the pending requests for the shard whose history has just grown: all of them are leftovers now *)
+Lemma bq_stale (B : N → request → Prop) (R : request → Prop) hosts hosts' hist s (hs : list hentry) (e : hentry) a0 q0 :
+  hist !! s = Some hs → e.1 = cur_version hs + 1 →
+  ((∃ x t, e.2 = <[x := t]> (cur_members hs) ∧ used_in hs x = false) ∨ (∃ y, e.2 = delete y (cur_members hs))) →
+  (∀ a' q', B a' q' → is_create q' = true → q_shard q' ≠ s) → B a0 q0 → q_shard q0 = s →
+  bq B R hosts hist a0 q0 → bq B R hosts' (<[s := e :: hs]> hist) a0 q0.
+Proof.
+  intros Hs He Hkind Hnc HB0 Hq0 Hbq. left.
+  assert (Hof : hist_of hist (q_shard q0) = hs) by (unfold hist_of; by rewrite Hq0, Hs).
+  assert (Hs0 : hist !! q_shard q0 = Some hs) by (by rewrite Hq0).
+  assert (Hs0' : ∀ h', <[s := e :: hs]> hist !! q_shard q0 = Some h' → h' = e :: hs) by (intros h'; rewrite Hq0, lookup_insert; congruence).
+  assert (Hof' : hist_of (<[s := e :: hs]> hist) (q_shard q0) = e :: hs) by (unfold hist_of; by rewrite Hq0, lookup_insert).
+  assert (Hnocreate : is_create q0 = false).
+  { destruct (is_create q0) eqn:Ec; [|done]. exfalso. by apply (Hnc a0 q0 HB0 Ec). }
+  assert (Hstale : is_change q0 = true → q_ccid q0 ≤ cur_version hs → q_members q0 ≠ [] → (is_add q0 = true → q_addrs q0 ≠ []) →
+            mharmless (<[s := e :: hs]> hist) a0 q0 ∧ qextra (<[s := e :: hs]> hist) q0).
+  { intros Hch Hle Hmem Haddr. split.
+    - left; right; left. split; [done|]. rewrite Hof'. cbn [cur_version]. split; [lia|done].
+    - split; [intros _ h' Hh'; rewrite (Hs0' h' Hh'); cbn [cur_version]; lia|]. intros Hk. unfold is_change, is_add, is_delete in Hch. unfold is_kill in Hk. by destruct (q_type q0). }
+  destruct Hbq as [[Hm Hx]|[(Hch & Hfen & _ & Hadd & Hdel) _]].
+  - destruct Hm as [[Hg|[(Hch & Hfen & Hmem & Haddr)|(Hk & y & Hy & Hd)]]|[(Hcr & _)|(Hres & _)]].
+    + destruct Hg as (Hres & _). unfold is_restore in Hres. rewrite Hnocreate in Hres. done.
+    + apply Hstale; [done| |done|done]. destruct Hx as [Hx _]. by apply Hx.
+    + destruct Hx as [_ Hx]. destruct (Hx Hk) as (y' & Hy' & Hu). specialize (Hu hs Hs0). assert (y' = y) as -> by congruence.
+      split.
+      * left; right; right. split; [done|]. exists y. split; [done|]. intros h'. rewrite Hq0, lookup_insert. intros [= <-].
+        cbn [cur_members snd]. specialize (Hd hs). rewrite Hq0 in Hd. specialize (Hd Hs). apply is_member_false in Hd. apply is_member_false.
+        destruct Hkind as [(x & t & -> & Hux)|(y0 & ->)].
+        -- assert (y ≠ x) by (intros ->; congruence). by rewrite lookup_insert_ne.
+        -- apply lookup_delete_None. by right.
+      * split.
+        -- intros Hch. unfold is_change, is_add, is_delete in Hch. unfold is_kill in Hk. by destruct (q_type q0).
+        -- intros _. exists y. split; [done|]. intros h' Hh'. rewrite (Hs0' h' Hh'). unfold used_in. cbn [existsb]. fold (used_in hs y). rewrite Hu. by rewrite orb_true_r.
+    + congruence.
+    + unfold is_restore in Hres. rewrite Hnocreate in Hres. done.
+  - rewrite Hof in Hfen. apply Hstale; [done|lia| |].
+    + unfold is_change in Hch. apply orb_true_iff in Hch as [Ha|Hd].
+      * destruct (Hadd Ha) as (x & t & -> & _). done.
+      * destruct (Hdel Hd) as (y & -> & _). done.
+    + intros Ha. destruct (Hadd Ha) as (x & t & _ & -> & _). done.
+Qed.
+
+Lemma li_ver_le d hosts hist seen extra a fh s rid lr h :
+  LI d hosts hist seen extra → hosts !! a = Some fh → fh_reps fh !! (s, rid) = Some lr → hist !! s = Some h →
+  lr_ver lr ≤ cur_version h.
+Proof.
+  intros HI Ha Hk Hh. destruct (li_reps _ _ _ _ _ HI a fh (s, rid) lr Ha Hk) as (h' & c & Hh' & _ & Hver & _).
+  cbn [fst] in Hh'. assert (h' = h) as -> by congruence.
+  destruct Hver as [->|[M HM]]; [lia|]. apply entry_at_Some in HM.
+  apply (hist_wf_le _ _ (li_hist _ _ _ _ _ HI _ _ Hh) _ HM).
+Qed.
+
+Lemma learn_local_keys reps s M v k : is_Some (reps !! k) → is_Some (learn_local reps s M v !! k).
+Proof. intros [lr Hk]. unfold learn_local. rewrite map_lookup_imap, Hk. cbn. by eexists. Qed.
+
+(* executing one pending request on NodeHost h: the host-side class holds afterwards relative to the history
+   afterwards, which is the old one or the old one with ONE entry appended for the shard of the request *)
+Lemma bexec_one d seen (B : N → request → Prop) (R : request → Prop) h q rest x x' :
+  LI d x.1 x.2 seen (q :: rest) → XB B R x → B h q → is_Some (x.1 !! h) → exec_req h true x q = Some x' →
+  XB B R x' ∧ data_mono x'.2 x.1 x'.1 ∧
+  (x'.2 = x.2 ∨
+   ∃ (hs : list hentry) (e : hentry), x.2 !! q_shard q = Some hs ∧ hs ≠ [] ∧ x'.2 = <[q_shard q := e :: hs]> x.2 ∧ e.1 = cur_version hs + 1 ∧
+     q_ccid q = cur_version hs ∧ lchange B x.1 x.2 h q ∧ R q ∧
+     ((is_add q = true ∧ ∃ xx t, q_members q = [xx] ∧ e.2 = <[xx := t]> (cur_members hs) ∧ cur_members hs !! xx = None) ∨
+      (∃ y, e.2 = delete y (cur_members hs) ∧ is_Some (cur_members hs !! y))) ∧
+     ∃ fh' rid lr, x'.1 !! h = Some fh' ∧ fh_reps fh' !! (q_shard q, rid) = Some lr ∧ lr_running lr = true ∧
+                   lr_ver lr = e.1 ∧ is_Some (e.2 !! rid)).
+Proof.
+  destruct x as [hosts hist]. cbn [fst snd]. intros HI HX HB [fh Hfh] E.
+  pose proof (xb_hm _ _ _ HX) as HH. pose proof (xb_nz _ _ _ HX) as Hnz. pose proof (xb_b _ _ _ HX) as Hb. cbn [fst snd] in HH, Hnz, Hb.
+  pose proof (exec_req_inv _ _ _ _ _ _ _ _ _ HI E) as HI'.
+  destruct (exec_req_keys h true (hosts, hist) q x' E) as [Hdom Hkeys]. cbn [fst snd] in Hdom, Hkeys.
+  assert (Hlc : ∀ a0 q0, lchange B hosts hist a0 q0 → x'.2 !! q_shard q0 = hist !! q_shard q0 → lchange B x'.1 x'.2 a0 q0).
+  { intros a0 q0 Hl He. apply (lchange_frame B hosts x'.1 hist x'.2); [done| | |done].
+    - intros a1 Ha1. by apply Hdom.
+    - intros a1 fh' k Hfh' Hk Hks. destruct (Hkeys a1 fh' k Hfh' Hk) as [?|[Hc ->]]; [done|]. exfalso.
+      destruct Hl as (_ & _ & HBc & _). by apply (HBc h q HB Hc). }
+  assert (Hsame : x' = (hosts, hist) →
+     XB B R x' ∧ data_mono x'.2 hosts x'.1 ∧
+     (x'.2 = hist ∨ ∃ (hs : list hentry) (e : hentry), hist !! q_shard q = Some hs ∧ hs ≠ [] ∧ x'.2 = <[q_shard q := e :: hs]> hist ∧ e.1 = cur_version hs + 1 ∧
+        q_ccid q = cur_version hs ∧ lchange B hosts hist h q ∧ R q ∧
+        ((is_add q = true ∧ ∃ xx t, q_members q = [xx] ∧ e.2 = <[xx := t]> (cur_members hs) ∧ cur_members hs !! xx = None) ∨
+         (∃ y, e.2 = delete y (cur_members hs) ∧ is_Some (cur_members hs !! y))) ∧
+        ∃ fh' rid lr, x'.1 !! h = Some fh' ∧ fh_reps fh' !! (q_shard q, rid) = Some lr ∧ lr_running lr = true ∧
+                      lr_ver lr = e.1 ∧ is_Some (e.2 !! rid))).
+  { intros ->. cbn [fst snd]. split; [done|]. split; [apply data_mono_refl|by left]. }
+  destruct (Hb h q HB) as [[Hm Hx]|Hl].
+  { (* a request that leaves the history alone *)
+    destruct (mexec_one (shard_size d) hist h q (hosts, hist) (li_hist _ _ _ _ _ HI) eq_refl HH Hm) as (x1 & E1 & H2 & HH1 & Hg & _);
+      [cbn; by eexists|].
+    assert (x1 = x') as -> by congruence. cbn [fst snd] in Hg.
+    split; [split|split].
+    - by rewrite H2.
+    - by rewrite H2.
+    - intros a0 q0 HB0. destruct (Hb a0 q0 HB0) as [[Hm0 Hx0]|[Hl0 HR0]]; [left; by rewrite H2|right]. split; [|done]. apply Hlc; [done|by rewrite H2].
+    - rewrite H2. by apply grows_data.
+    - by left. }
+  (* a change request with a current fence *)
+  pose proof Hl as [Hlq _]. destruct Hl as [(Hch & Hf & HBc & Hadd & Hdel) HRq]. set (s := q_shard q) in *.
+  unfold exec_req in E. cbn [fst snd] in E. rewrite Hfh in E. fold s in E.
+  (* the common part of the two applied cases *)
+  assert (Happly : ∀ e0 hs0 e reps',
+     hist_of hist s = e0 :: hs0 → e.1 = e0.1 + 1 →
+     cc_ready true hosts (fh_reps fh) s e0.1 e0.2 (q_ccid q) = true →
+     x' = (set_reps hosts h reps', <[s := e :: e0 :: hs0]> hist) →
+     ((is_add q = true ∧ ∃ xx t, q_members q = [xx] ∧ e.2 = <[xx := t]> e0.2 ∧ used_in (e0 :: hs0) xx = false ∧ xx ≠ 0 ∧ t ≠ 0 ∧ is_Some (hosts !! t) ∧
+               (∀ fh0 rid, hosts !! t = Some fh0 → fh_reps fh0 !! (s, rid) = None) ∧
+               (∀ a' fh0, hosts !! a' = Some fh0 → fh_reps fh0 !! (s, xx) = None) ∧
+               reps' = learn_local (fh_reps fh) s e0.2 (e0.1 + 1)) ∨
+      (∃ y, e.2 = delete y e0.2 ∧ is_Some (e0.2 !! y) ∧ s ≠ 0 ∧ y ≠ 0 ∧ e0.2 !! y ≠ Some h ∧
+            reps' = delete (s, y) (learn_local (fh_reps fh) s e0.2 (e0.1 + 1)))) →
+     XB B R x' ∧ data_mono x'.2 hosts x'.1 ∧
+     (x'.2 = hist ∨ ∃ (hs : list hentry) (e : hentry), hist !! s = Some hs ∧ hs ≠ [] ∧ x'.2 = <[s := e :: hs]> hist ∧ e.1 = cur_version hs + 1 ∧
+        q_ccid q = cur_version hs ∧ lchange B hosts hist h q ∧ R q ∧
+        ((is_add q = true ∧ ∃ xx t, q_members q = [xx] ∧ e.2 = <[xx := t]> (cur_members hs) ∧ cur_members hs !! xx = None) ∨
+         (∃ y, e.2 = delete y (cur_members hs) ∧ is_Some (cur_members hs !! y))) ∧
+        ∃ fh' rid lr, x'.1 !! h = Some fh' ∧ fh_reps fh' !! (s, rid) = Some lr ∧ lr_running lr = true ∧
+                      lr_ver lr = e.1 ∧ is_Some (e.2 !! rid))).
+  { intros e0 hs0 e reps' Eh He Hcc -> Hkind. cbn [fst snd].
+    set (hs := e0 :: hs0) in *. set (hist' := <[s := e :: hs]> hist).
+    assert (Hs : hist !! s = Some hs).
+    { unfold hist_of in Eh. destruct (hist !! s) as [h0|]; cbn in Eh; [by rewrite Eh|done]. }
+    assert (Hcv : cur_version hs = e0.1) by done. assert (Hcm : cur_members hs = e0.2) by done.
+    rewrite Eh in Hf. cbn [cur_version] in Hf.
+    cbn [fst snd] in HI'.
+    assert (Hw' : hist_wf (shard_size d s) (e :: hs)).
+    { apply (li_hist _ _ _ _ _ HI' s). unfold hist'. by rewrite lookup_insert. }
+    assert (Hver : ∀ a fh0 rid lr, hosts !! a = Some fh0 → fh_reps fh0 !! (s, rid) = Some lr → lr_ver lr ≤ cur_version hs).
+    { intros a fh0 rid lr Ha Hk. by apply (li_ver_le _ _ _ _ _ a fh0 s rid lr hs HI). }
+    (* HMend on the old hosts, new history *)
+    destruct (hmend_append (shard_size d s) hist hosts s hs e Hw' Hs ltac:(done) HH Hnz ltac:(lia) Hver) as [HH1 Hnz1].
+    { destruct Hkind as [(_ & xx & t & _ & Hee & _ & Hx0 & Ht0 & Ht & Hfree & Hnodata & _)|(y & Hee & Hy & Hs0 & Hy0 & _)].
+      - left. exists xx, t. rewrite Hcm. done.
+      - right. exists y. rewrite Hcm. done. }
+    fold hist' in HH1, Hnz1.
+    (* the running member on the proposer's host *)
+    unfold cc_ready in Hcc. apply andb_true_iff in Hcc as [Hcc _]. apply andb_true_iff in Hcc as [Hcc _].
+    apply andb_true_iff in Hcc as [_ Hex]. apply existsb_exists in Hex as (r0 & Hr0 & Hm0). apply elem_of_list_In, running_of_elem in Hr0 as (lr0 & Hk0 & Hrun0).
+    assert (Hreps' : ∀ k lr', reps' !! k = Some lr' →
+               ∃ lr, fh_reps fh !! k = Some lr ∧ (lr' = lr ∨ (k.1 = s ∧ ∃ h0, hist' !! s = Some h0 ∧ is_Some (cur_members h0 !! k.2)))).
+    { intros k lr' Hk. destruct Hkind as [(_ & xx & t & _ & Hee & _ & _ & _ & _ & _ & _ & ->)|(y & Hee & Hy & _ & _ & Hyh & ->)].
+      - apply learn_local_lookup2 in Hk as (lr & Hlr & [->|(Hks & _ & Hmem & _)]); [by eauto|]. exists lr. split; [done|]. right. split; [done|].
+        exists (e :: hs). unfold hist'. rewrite lookup_insert. split; [done|]. cbn. rewrite Hee. apply is_member_true in Hmem as [b Hmb].
+        destruct (decide (k.2 = xx)) as [->|?]; [rewrite lookup_insert; by eexists|rewrite lookup_insert_ne by done; by eexists].
+      - apply lookup_delete_Some in Hk as [Hne Hk].
+        apply learn_local_lookup2 in Hk as (lr & Hlr & [->|(Hks & _ & Hmem & _)]); [by eauto|]. exists lr. split; [done|]. right. split; [done|].
+        exists (e :: hs). unfold hist'. rewrite lookup_insert. split; [done|]. cbn. rewrite Hee. apply is_member_true in Hmem as [b Hmb].
+        assert (k.2 ≠ y) by (intros Heq; apply Hne; destruct k as [k1 k2]; cbn in *; by subst). rewrite lookup_delete_ne by done. by eexists. }
+    pose proof (hmend_proposer hist' hosts h fh reps' s HH1 Hfh Hreps') as HH2.
+    (* the proposer knows *)
+    assert (Hknow : ∃ fh' rid lr, set_reps hosts h reps' !! h = Some fh' ∧ fh_reps fh' !! (s, rid) = Some lr ∧ lr_running lr = true ∧
+                      lr_ver lr = e.1 ∧ is_Some (e.2 !! rid)).
+    { rewrite set_reps_lookup, Hfh, decide_True by done. eexists _, r0, (mkLRep true (e0.1 + 1)). split; [done|]. cbn [fh_reps lr_running lr_ver].
+      apply is_member_true in Hm0 as Hm0'. destruct Hm0' as [b0 Hb0].
+      destruct Hkind as [(_ & xx & t & _ & Hee & _ & _ & _ & _ & _ & _ & ->)|(y & Hee & Hy & _ & _ & Hyh & ->)].
+      - split; [by apply (learn_local_knows _ _ _ _ _ lr0)|]. split; [done|]. split; [lia|]. rewrite Hee.
+        destruct (decide (r0 = xx)) as [->|?]; [rewrite lookup_insert; by eexists|rewrite lookup_insert_ne by done; by eexists].
+      - assert (r0 ≠ y).
+        { intros ->. apply Hyh. assert (b0 = h) as -> by (by apply (hm_home _ _ HH h fh s y lr0 hs b0)). done. }
+        split; [rewrite lookup_delete_ne by congruence; by apply (learn_local_knows _ _ _ _ _ lr0)|]. split; [done|]. split; [lia|].
+        rewrite Hee, lookup_delete_ne by done. by eexists. }
+    split; [split|split].
+    - exact HH2.
+    - exact Hnz1.
+    - intros a0 q0 HB0. destruct (decide (q_shard q0 = s)) as [Hq0|Hq0].
+      + apply (bq_stale B R hosts _ hist s hs e a0 q0 Hs ltac:(lia)); [|exact HBc|done|done|by apply Hb].
+        destruct Hkind as [(_ & xx & t & _ & Hee & Hu & _)|(y & Hee & _)]; [left; exists xx, t|right; exists y]; by rewrite Hcm.
+      + assert (Heq : hist' !! q_shard q0 = hist !! q_shard q0) by (unfold hist'; by rewrite lookup_insert_ne).
+        destruct (Hb a0 q0 HB0) as [[Hm1 Hx1]|[Hl1 HR1]].
+        * left. split; [by apply (mharmless_frame hist)|by apply (qextra_frame hist)].
+        * right. split; [by apply Hlc|done].
+    - (* member data stays *)
+      intros a fh0 k Ha Hk Hmk. rewrite set_reps_lookup, Hfh. destruct (decide (a = h)) as [->|Hne]; [|by exists fh0].
+      assert (fh0 = fh) as -> by congruence. eexists. split; [done|]. cbn [fh_reps].
+      destruct Hkind as [(_ & xx & t & _ & _ & _ & _ & _ & _ & _ & _ & ->)|(y & Hee & _ & _ & _ & _ & ->)]; [by apply learn_local_keys|].
+      rewrite lookup_delete_ne; [by apply learn_local_keys|]. intros <-. destruct Hmk as (h0 & Hh0 & Hm1). cbn [fst snd] in Hh0, Hm1.
+      unfold hist' in Hh0. rewrite lookup_insert in Hh0. injection Hh0 as <-. cbn in Hm1. rewrite Hee, lookup_delete in Hm1. by destruct Hm1.
+    - right. exists hs, e. split; [done|]. split; [done|]. split; [done|]. split; [lia|]. split; [lia|]. split; [exact Hlq|]. split; [exact HRq|].
+      split; [|exact Hknow].
+      destruct Hkind as [(Hia & xx & t & Hmm & Hee & Hu & _)|(y & Hee & Hy & _)]; [left; split; [done|]; exists xx, t|right; exists y]; rewrite Hcm; [|done].
+      split; [done|]. split; [done|]. apply is_member_false. rewrite used_in_false in Hu. apply (Hu e0). left. }
+  unfold is_change, is_add, is_delete in Hch, Hadd, Hdel. destruct (q_type q) eqn:Ety; try done.
+  - (* DELETE *)
+    destruct (Hdel eq_refl) as (y & Hy & Hy0 & Hs0 & Hya). rewrite Hy in E. injection E as E.
+    destruct (hist_of hist s) as [|e0 hs0] eqn:Eh; [by apply Hsame|].
+    destruct (cc_ready true hosts (fh_reps fh) s e0.1 e0.2 (q_ccid q) && is_member e0.2 y) eqn:Ecc; [|by apply Hsame].
+    apply andb_true_iff in Ecc as [Ecc Emem]. symmetry in E.
+    apply (Happly e0 hs0 (e0.1 + 1, delete y e0.2) _ eq_refl eq_refl Ecc E). right. exists y. cbn [snd].
+    split; [done|]. split; [by apply is_member_true|]. split; [done|]. split; [done|]. split; [|done]. done.
+  - (* ADD *)
+    destruct (Hadd eq_refl) as (xx & t & Hxx & Htt & Hx0 & Ht0 & Ht & Hnomem & Hfree & Hnodata). rewrite Hxx, Htt in E. injection E as E.
+    destruct (hist_of hist s) as [|e0 hs0] eqn:Eh; [by apply Hsame|].
+    destruct (cc_ready true hosts (fh_reps fh) s e0.1 e0.2 (q_ccid q) && negb (used_in (e0 :: hs0) xx)) eqn:Ecc; [|by apply Hsame].
+    apply andb_true_iff in Ecc as [Ecc Eu]. apply negb_true_iff in Eu. symmetry in E.
+    apply (Happly e0 hs0 (e0.1 + 1, <[xx := t]> e0.2) _ eq_refl eq_refl Ecc E). left. split; [unfold is_add; by rewrite Ety|]. exists xx, t. cbn [snd]. done.
+Qed.
+
+(* a running replica of a shard whose history does not change is left alone by every request but its own KILL *)
+Lemma exec_req_keep h x q x' a fh k lr :
+  exec_req h true x q = Some x' → x.1 !! a = Some fh → fh_reps fh !! k = Some lr → lr_running lr = true →
+  x'.2 !! k.1 = x.2 !! k.1 →
+  (is_kill q = true → ∀ y ms, q_members q = y :: ms → (q_shard q, y) ≠ k) →
+  ∃ fh', x'.1 !! a = Some fh' ∧ fh_reps fh' !! k = Some lr.
+Proof.
+  intros E Ha Hk Hr Hhist Hkill.
+  assert (Hsame : ∃ fh', x.1 !! a = Some fh' ∧ fh_reps fh' !! k = Some lr) by (by exists fh).
+  assert (Hset : ∀ fh0 reps' (hist' : gmap N (list hentry)), x.1 !! h = Some fh0 → (a = h → reps' !! k = Some lr) →
+            ∃ fh', (set_reps x.1 h reps', hist').1 !! a = Some fh' ∧ fh_reps fh' !! k = Some lr).
+  { intros fh0 reps' hist' Hfh0 Hk'. cbn [fst]. rewrite set_reps_lookup, Hfh0. destruct (decide (a = h)) as [->|Hne]; [|by exists fh].
+    eexists. split; [done|]. cbn. by apply Hk'. }
+  unfold exec_req in E. destruct (x.1 !! h) as [fh0|] eqn:Hfh0; [|injection E as <-; exact Hsame].
+  assert (Hnb : busy (fh_reps fh0) (q_shard q) = false → a = h → k.1 ≠ q_shard q).
+  { intros Hb -> Hks. assert (busy (fh_reps fh0) (q_shard q) = true); [|congruence].
+    apply busy_spec. exists k.2, lr. assert (fh0 = fh) as -> by congruence. destruct k as [k1 k2]. cbn in *. by subst. }
+  assert (Hins : ∀ lr1, a = h → k.1 ≠ q_shard q → <[(q_shard q, q_inst q) := lr1]> (fh_reps fh0) !! k = Some lr).
+  { intros lr1 -> Hb. assert (fh0 = fh) as -> by congruence. rewrite lookup_insert_ne; [done|]. intros <-. by apply Hb. }
+  destruct (q_type q) eqn:Ety.
+  - destruct (q_join q), (q_restore q); try done.
+    + destruct (fh_reps fh0 !! (q_shard q, q_inst q)) as [lr1|] eqn:Ek; injection E as <-.
+      * unfold start_existing. destruct (busy (fh_reps fh0) (q_shard q)) eqn:Eb; cbn [orb]; [exact Hsame|].
+        destruct (removed_at _ _ _); [exact Hsame|]. apply (Hset fh0); [done|]. intros Hah. apply Hins; [done|by apply Hnb].
+      * destruct (busy (fh_reps fh0) (q_shard q)) eqn:Eb; [exact Hsame|]. apply (Hset fh0); [done|]. intros Hah. apply Hins; [done|by apply Hnb].
+    + destruct (fh_reps fh0 !! (q_shard q, q_inst q)) as [lr1|] eqn:Ek; injection E as <-; [|exact Hsame].
+      unfold start_existing. destruct (busy (fh_reps fh0) (q_shard q)) eqn:Eb; cbn [orb]; [exact Hsame|].
+      destruct (removed_at _ _ _); [exact Hsame|]. apply (Hset fh0); [done|]. intros Hah. apply Hins; [done|by apply Hnb].
+    + destruct (fh_reps fh0 !! (q_shard q, q_inst q)) as [lr1|] eqn:Ek; [done|]. injection E as <-.
+      destruct (busy (fh_reps fh0) (q_shard q)) eqn:Eb; [exact Hsame|]. apply (Hset fh0); [done|]. intros Hah. apply Hins; [done|by apply Hnb].
+  - destruct (q_members q) as [|rid ms]; [done|]. injection E as <-.
+    destruct (hist_of x.2 (q_shard q)) as [|e hs] eqn:Eh; [exact Hsame|]. destruct (_ && _); [|exact Hsame].
+    cbn [snd] in Hhist.
+    assert (Hks : k.1 ≠ q_shard q).
+    { intros Hks. rewrite Hks, lookup_insert in Hhist. unfold hist_of in Eh. rewrite <- Hhist in Eh. cbn in Eh.
+      apply (f_equal length) in Eh. cbn in Eh. lia. }
+    apply (Hset fh0); [done|]. intros ->. assert (fh0 = fh) as -> by congruence.
+    rewrite lookup_delete_ne by (intros <-; by apply Hks). by rewrite learn_local_other.
+  - destruct (q_members q) as [|rid ms]; [done|]. destruct (q_addrs q) as [|t ts]; [done|]. injection E as <-.
+    destruct (hist_of x.2 (q_shard q)) as [|e hs] eqn:Eh; [exact Hsame|]. destruct (_ && _); [|exact Hsame].
+    cbn [snd] in Hhist.
+    assert (Hks : k.1 ≠ q_shard q).
+    { intros Hks. rewrite Hks, lookup_insert in Hhist. unfold hist_of in Eh. rewrite <- Hhist in Eh. cbn in Eh.
+      apply (f_equal length) in Eh. cbn in Eh. lia. }
+    apply (Hset fh0); [done|]. intros ->. assert (fh0 = fh) as -> by congruence. by rewrite learn_local_other.
+  - destruct (q_members q) as [|rid ms] eqn:Em; [done|]. injection E as <-.
+    destruct (fh_reps fh0 !! (q_shard q, rid)) as [lr1|] eqn:Ek; [|exact Hsame]. destruct (lr_running lr1); [|exact Hsame].
+    apply (Hset fh0); [done|]. intros ->. assert (fh0 = fh) as -> by congruence.
+    rewrite lookup_delete_ne; [done|]. apply (Hkill ltac:(unfold is_kill; by rewrite Ety) rid ms eq_refl).
+Qed.
+
+(* a replica that runs after a request ran before it, or is the target of the (CREATE) request *)
+Lemma exec_req_started h ccok x q x' a fh' k lr' :
+  exec_req h ccok x q = Some x' → x'.1 !! a = Some fh' → fh_reps fh' !! k = Some lr' → lr_running lr' = true →
+  (∃ fh lr, x.1 !! a = Some fh ∧ fh_reps fh !! k = Some lr ∧ lr_running lr = true) ∨ (is_create q = true ∧ k = (q_shard q, q_inst q)).
+Proof.
+  intros E.
+  assert (Hsame : x.1 !! a = Some fh' → fh_reps fh' !! k = Some lr' → lr_running lr' = true →
+     (∃ fh lr, x.1 !! a = Some fh ∧ fh_reps fh !! k = Some lr ∧ lr_running lr = true) ∨ (is_create q = true ∧ k = (q_shard q, q_inst q))).
+  { intros Ha Hk Hr. left. by exists fh', lr'. }
+  assert (Hset : ∀ fh reps' (hist' : gmap N (list hentry)), x.1 !! h = Some fh →
+     (∀ lr1, reps' !! k = Some lr1 → lr_running lr1 = true →
+        (∃ lr, fh_reps fh !! k = Some lr ∧ lr_running lr = true) ∨ (is_create q = true ∧ k = (q_shard q, q_inst q))) →
+     (set_reps x.1 h reps', hist').1 !! a = Some fh' → fh_reps fh' !! k = Some lr' → lr_running lr' = true →
+     (∃ fh0 lr, x.1 !! a = Some fh0 ∧ fh_reps fh0 !! k = Some lr ∧ lr_running lr = true) ∨ (is_create q = true ∧ k = (q_shard q, q_inst q))).
+  { intros fh reps' hist' Hfh Hr. cbn [fst]. rewrite set_reps_lookup, Hfh. destruct (decide (a = h)) as [->|Hne]; [|apply Hsame].
+    intros [= <-] Hk Hrun. cbn [fh_reps] in Hk. destruct (Hr lr' Hk Hrun) as [(lr & Hlr & Hrl)|?]; [left; by exists fh, lr|by right]. }
+  unfold exec_req in E. destruct (x.1 !! h) as [fh|] eqn:Hfh; [|injection E as <-; exact Hsame].
+  assert (Hins : ∀ lr0, is_create q = true →
+            ∀ lr1, <[(q_shard q, q_inst q) := lr0]> (fh_reps fh) !! k = Some lr1 → lr_running lr1 = true →
+              (∃ lr, fh_reps fh !! k = Some lr ∧ lr_running lr = true) ∨ (is_create q = true ∧ k = (q_shard q, q_inst q))).
+  { intros lr0 Hc lr1 Hk Hr. destruct (decide (k = (q_shard q, q_inst q))) as [->|Hne]; [by right|]. rewrite lookup_insert_ne in Hk by done. left. by exists lr1. }
+  assert (Hll : ∀ s M v lr1, learn_local (fh_reps fh) s M v !! k = Some lr1 → lr_running lr1 = true →
+            ∃ lr, fh_reps fh !! k = Some lr ∧ lr_running lr = true).
+  { intros s M v lr1 Hk Hr. apply learn_local_lookup2 in Hk as (lr & Hlr & [->|(_ & Hrl & _)]); by exists lr. }
+  destruct (q_type q) eqn:Ety.
+  - assert (Hc : is_create q = true) by (unfold is_create; by rewrite Ety).
+    destruct (q_join q), (q_restore q); try done.
+    + destruct (fh_reps fh !! (q_shard q, q_inst q)) as [lr|] eqn:Ek; injection E as <-.
+      * unfold start_existing. destruct (_ || _); [exact Hsame|]. apply (Hset fh); [done|]. by apply Hins.
+      * destruct (busy _ _); [exact Hsame|]. apply (Hset fh); [done|]. by apply Hins.
+    + destruct (fh_reps fh !! (q_shard q, q_inst q)) as [lr|] eqn:Ek; injection E as <-; [|exact Hsame].
+      unfold start_existing. destruct (_ || _); [exact Hsame|]. apply (Hset fh); [done|]. by apply Hins.
+    + destruct (fh_reps fh !! (q_shard q, q_inst q)) as [lr|] eqn:Ek; [done|]. injection E as <-.
+      destruct (busy _ _); [exact Hsame|]. apply (Hset fh); [done|]. by apply Hins.
+  - destruct (q_members q) as [|rid ms]; [done|]. injection E as <-.
+    destruct (hist_of x.2 (q_shard q)) as [|e hs]; [exact Hsame|]. destruct (_ && _); [|exact Hsame].
+    apply (Hset fh); [done|]. intros lr1 Hk Hr. left. apply lookup_delete_Some in Hk as [_ Hk]. by eapply Hll.
+  - destruct (q_members q) as [|rid ms]; [done|]. destruct (q_addrs q) as [|t ts]; [done|]. injection E as <-.
+    destruct (hist_of x.2 (q_shard q)) as [|e hs]; [exact Hsame|]. destruct (_ && _); [|exact Hsame].
+    apply (Hset fh); [done|]. intros lr1 Hk Hr. left. by eapply Hll.
+  - destruct (q_members q) as [|rid ms]; [done|]. injection E as <-.
+    destruct (fh_reps fh !! (q_shard q, rid)) as [lr|] eqn:Ek; [|exact Hsame]. destruct (lr_running lr); [|exact Hsame].
+    apply (Hset fh); [done|]. intros lr1 Hk Hr. left. apply lookup_delete_Some in Hk as [_ Hk]. by exists lr1.
+Qed.
+
+(** * Part 2: the class of fleet states *)
+(* what the Drummer DB knows about a live request: its fence is the version of Drummer's view of the shard, and every
+   member the view shows has reported *)
+Definition vready (d : db) (q : request) : Prop :=
+  ∃ c, d_view d !! q_shard q = Some c ∧ s_cci c = q_ccid q ∧ ∀ rid n, s_reps c !! rid = Some n → r_tick n ≠ 0.
+
+(* [Bx]: the pending requests.  As FleetMendAProofs.MendA (without the invariant), with live change requests allowed *)
+Record MendP (Bx : N → request → Prop) (st : fstate) : Prop := mkMendP {
+  mp_timeok : time_ok (f_db st);
+  mp_time : 0 < d_tick (f_db st);
+  mp_defined : ∀ s sd, d_shards (f_db st) !! s = Some sd → is_Some (f_hist st !! s) ∧ sd_members sd ≠ [] ∧ sd_app sd ≠ 0;
+  mp_viewdef : ∀ s, is_Some (d_view (f_db st) !! s) → is_Some (d_shards (f_db st) !! s) ∧ is_Some (f_hist st !! s);
+  mp_hosts : ∀ a fh, f_hosts st !! a = Some fh → fh_up fh = true ∧ fh_out fh = None;
+  mp_kill : ∀ k, k ∈ d_kill (f_db st) → k_shard k ≠ 0 ∧ k_replica k ≠ 0 ∧ k_addr k ≠ 0;
+  mp_boxes : ∀ a q, Bx a q → bq Bx (vready (f_db st)) (f_hosts st) (f_hist st) a q;
+  mp_members : ∀ s h, f_hist st !! s = Some h →
+    ∃ c, d_view (f_db st) !! s = Some c ∧ (s_cci c = cur_version h ∨ ∃ v M M' x rest, behind h c v M M' x rest) ∧
+         ∀ rid a, cur_members h !! rid = Some a →
+           rid ≠ 0 ∧ a ≠ 0 ∧ ∃ fh, f_hosts st !! a = Some fh ∧ (stamped (f_db st) s rid → is_Some (fh_reps fh !! (s, rid)));
+  mp_behind : ∀ s h c v M M' x rest, f_hist st !! s = Some h → d_view (f_db st) !! s = Some c → behind h c v M M' x rest →
+    (∀ rid n, s_reps c !! rid = Some n → r_tick n ≠ 0) ∧
+    (M !! x = None → ∀ a fh lr, f_hosts st !! a = Some fh → fh_reps fh !! (s, x) = Some lr → lr_running lr = false) ∧
+    (∃ a fh rid lr, f_hosts st !! a = Some fh ∧ fh_reps fh !! (s, rid) = Some lr ∧ lr_running lr = true ∧ lr_ver lr = v + 1);
+  mp_waiting : ∀ s c rid n, d_view (f_db st) !! s = Some c → s_reps c !! rid = Some n → r_tick n = 0 → r_first n ≠ 0;
+  mp_onejoin : ∀ s c r1 r2 n1 n2, d_view (f_db st) !! s = Some c → s_reps c !! r1 = Some n1 → s_reps c !! r2 = Some n2 →
+    r_tick n1 = 0 → r_tick n2 = 0 → r1 = r2;
+  mp_home : ∀ a fh s rid lr h a', f_hosts st !! a = Some fh → fh_reps fh !! (s, rid) = Some lr →
+    f_hist st !! s = Some h → cur_members h !! rid = Some a' → a' = a;
+  mp_nostray : ∀ a fh s rid lr, f_hosts st !! a = Some fh → fh_reps fh !! (s, rid) = Some lr → lr_running lr = true →
+    (∃ h, f_hist st !! s = Some h ∧ is_Some (cur_members h !! rid)) ∨ stray_ok (f_hist st) a s rid lr }.
+
+(* mid-round: no CREATE request is pending for a shard whose history is ahead of Drummer's view *)
+Definition nocreate (Bx : N → request → Prop) (st : fstate) : Prop :=
+  ∀ s h c v M M' x rest, f_hist st !! s = Some h → d_view (f_db st) !! s = Some c → behind h c v M M' x rest →
+    ∀ a q, Bx a q → is_create q = true → q_shard q ≠ s.
+
+Lemma mp_xb Bx d hosts hist seen extra :
+  LI d hosts hist seen extra → MendP Bx (mkF d hosts hist seen) → XB Bx (vready d) (hosts, hist).
+Proof.
+  intros HI HP. split; cbn [fst snd].
+  - split.
+    + apply (mp_hosts _ _ HP).
+    + intros s h rid a Hh Hm. destruct (mp_members _ _ HP s h Hh) as (c & _ & _ & Hmem). destruct (Hmem rid a Hm) as (_ & _ & fh & Hfh & _). by eexists.
+    + apply (mp_home _ _ HP).
+    + apply (mp_nostray _ _ HP).
+    + intros a fh s rid lr h. apply (old_rep (mkF d hosts hist seen)). unfold LoopInv. cbn. eapply LI_shrink; [|exact HI]. intros q Hq. by apply elem_of_nil in Hq.
+  - intros s h rid a Hh Hm. destruct (mp_members _ _ HP s h Hh) as (c & _ & _ & Hmem). destruct (Hmem rid a Hm) as (? & ? & _). done.
+  - apply (mp_boxes _ _ HP).
+Qed.
+
+(** * one request, at the level of the class *)
+Lemma mp_exec_req (Bx : N → request → Prop) d seen hosts hist h q qs x' :
+  LI d hosts hist seen (q :: qs) → MendP Bx (mkF d hosts hist seen) → nocreate Bx (mkF d hosts hist seen) →
+  Bx h q → is_Some (hosts !! h) → exec_req h true (hosts, hist) q = Some x' →
+  MendP Bx (mkF d x'.1 x'.2 seen) ∧ nocreate Bx (mkF d x'.1 x'.2 seen).
+Proof.
+  intros HI HP Hnc HB Hh E.
+  pose proof (exec_req_inv _ _ _ _ _ _ _ _ _ HI E) as HI'.
+  pose proof (mp_xb Bx d hosts hist seen _ HI HP) as HX.
+  destruct (bexec_one d seen Bx (vready d) h q qs (hosts, hist) x' HI HX HB Hh E) as (HX' & Hdm & Hrel). cbn [fst snd] in Hdm, Hrel.
+  destruct (exec_req_keys h true (hosts, hist) q x' E) as [Hdom Hkeys]. cbn [fst snd] in Hdom, Hkeys.
+  pose proof (xb_hm _ _ _ HX') as HH'. pose proof (xb_nz _ _ _ HX') as Hnz'.
+  (* the shards: unchanged, or the shard of q with one entry appended *)
+  assert (Hsh : ∀ s h', x'.2 !! s = Some h' →
+     hist !! s = Some h' ∨
+     (s = q_shard q ∧ ∃ (hs : list hentry) (e : hentry), hist !! s = Some hs ∧ hs ≠ [] ∧ h' = e :: hs ∧ x'.2 = <[s := e :: hs]> hist ∧ e.1 = cur_version hs + 1 ∧
+        q_ccid q = cur_version hs ∧ lchange Bx hosts hist h q ∧ vready d q ∧
+        ((is_add q = true ∧ ∃ xx t, q_members q = [xx] ∧ e.2 = <[xx := t]> (cur_members hs) ∧ cur_members hs !! xx = None) ∨
+         (∃ y, e.2 = delete y (cur_members hs) ∧ is_Some (cur_members hs !! y))) ∧
+        ∃ fh' rid lr, x'.1 !! h = Some fh' ∧ fh_reps fh' !! (s, rid) = Some lr ∧ lr_running lr = true ∧ lr_ver lr = e.1 ∧ is_Some (e.2 !! rid))).
+  { intros s h' Hh'. destruct Hrel as [Heq|(hs & e & Hs & Hne & Heq & He & Hfq & Hl & HR & Hkind & Hknow)]; [left; by rewrite <- Heq|].
+    destruct (decide (s = q_shard q)) as [->|Hns].
+    - right. split; [done|]. exists hs, e. rewrite Heq, lookup_insert in Hh'. injection Hh' as <-. done.
+    - left. rewrite Heq, lookup_insert_ne in Hh' by done. done. }
+  assert (Hsh2 : ∀ s h0, hist !! s = Some h0 → is_Some (x'.2 !! s)).
+  { intros s h0 Hh0. destruct Hrel as [->|(hs & e & Hs & Hne & -> & _)]; [by eexists|].
+    destruct (decide (s = q_shard q)) as [->|Hns]; [rewrite lookup_insert; by eexists|rewrite lookup_insert_ne by done; by eexists]. }
+  (* a live request that has been applied was behind nothing *)
+  assert (Hcur : ∀ hs c, hist !! q_shard q = Some hs → q_ccid q = cur_version hs → vready d q → d_view d !! q_shard q = Some c →
+            s_cci c = cur_version hs ∧ ∀ rid n, s_reps c !! rid = Some n → r_tick n ≠ 0).
+  { intros hs c Hs Hfq (c0 & Hc0 & Hcc & Hst) Hc. assert (c0 = c) as -> by congruence. split; [congruence|done]. }
+  split; [split; cbn [f_db f_hosts f_hist f_seen]|].
+  - apply (mp_timeok _ _ HP).
+  - apply (mp_time _ _ HP).
+  - intros s sd Hsd. destruct (mp_defined _ _ HP s sd Hsd) as ([h0 Hh0] & ? & ?). split; [by apply (Hsh2 s h0)|done].
+  - intros s Hv. destruct (mp_viewdef _ _ HP s Hv) as (? & [h0 Hh0]). split; [done|by apply (Hsh2 s h0)].
+  - apply (hm_up _ _ HH').
+  - apply (mp_kill _ _ HP).
+  - apply (xb_b _ _ _ HX').
+  - (* members *)
+    intros s h' Hh'. destruct (Hsh s h' Hh') as [Hold|(-> & hs & e & Hs & Hne & -> & Hx2 & He & Hfq & Hl & HR & Hkind & Hknow)].
+    + destruct (mp_members _ _ HP s h' Hold) as (c & Hc & Hcase & Hmem). cbn [f_db f_hosts f_hist] in Hc, Hcase, Hmem.
+      exists c. split; [done|]. split; [done|]. intros rid a Hm. destruct (Hmem rid a Hm) as (Hr0 & Ha0 & fh & Hfh & Hdata).
+      split; [done|]. split; [done|]. destruct (proj2 (Hdom a) ltac:(by eexists)) as [fh' Hfh']. exists fh'. split; [done|].
+      intros Hst. destruct (Hdm a fh (s, rid) Hfh (Hdata Hst)) as (fh2 & Hfh2 & Hk2); [exists h'; cbn; split; [done|by eexists]|]. congruence.
+    + destruct (mp_members _ _ HP (q_shard q) hs Hs) as (c & Hc & _ & Hmem). cbn [f_db f_hosts f_hist] in Hc, Hmem.
+      destruct (Hcur hs c Hs Hfq HR Hc) as [Hcc Hstamped].
+      exists c. split; [done|]. split.
+      { right. destruct hs as [|[v M] rest]; [done|]. destruct e as [ev eM]. cbn [fst snd cur_version cur_members] in *.
+        destruct Hkind as [(_ & xx & t & _ & -> & Hnx)|(y & -> & Hy)].
+        - exists v, M, (<[xx := t]> M), xx, rest. split; [by rewrite He|]. split; [done|]. left. split; [done|]. by exists t.
+        - exists v, M, (delete y M), y, rest. split; [by rewrite He|]. split; [done|]. by right. }
+      intros rid a Hm. destruct (Hnz' (q_shard q) (e :: hs) rid a Hh' Hm) as [Hr0 Ha0]. split; [done|]. split; [done|].
+      destruct (hm_hosts _ _ HH' (q_shard q) (e :: hs) rid a Hh' Hm) as [fh' Hfh']. exists fh'. split; [done|].
+      intros Hst.
+      (* a stamped member is a member of the membership the view shows: the old one *)
+      assert (Hview : r_addr <$> s_reps c = cur_members hs).
+      { destruct (li_view _ _ _ _ _ HI (q_shard q) c Hc) as (_ & HHv & _). unfold Hf in HHv.
+        assert (Hho : Fleet.hist_of hist (q_shard q) = hs) by (unfold Fleet.hist_of; by rewrite Hs). rewrite Hho in HHv.
+        rewrite Hcc in HHv. destruct hs as [|[v M] rest]; [done|]. cbn in HHv |- *. rewrite N.eqb_refl in HHv. by injection HHv as <-. }
+      destruct Hst as (n & Hrec & Hnzt). pose proof Hrec as Hrec0. apply rec_of_Some in Hrec as (c0 & Hc0 & Hn). cbn [f_db] in Hc0. assert (c0 = c) as -> by congruence.
+      assert (Hold : cur_members hs !! rid = Some (r_addr n)) by (rewrite <- Hview, lookup_fmap, Hn; done).
+      cbn [cur_members snd] in Hm.
+      assert (Ha : a = r_addr n).
+      { destruct Hkind as [(_ & xx & t & _ & Hee & Hnx)|(y & Hee & Hy)]; rewrite Hee in Hm.
+        - assert (rid ≠ xx) by (intros ->; congruence). rewrite lookup_insert_ne in Hm by done. congruence.
+        - apply lookup_delete_Some in Hm as [_ Hm]. congruence. }
+      subst a. destruct (Hmem rid (r_addr n) Hold) as (_ & _ & fh & Hfh & Hdata).
+      destruct (Hdm (r_addr n) fh (q_shard q, rid) Hfh) as (fh2 & Hfh2 & Hk2).
+      { apply Hdata. exists n. done. }
+      { exists (e :: hs). cbn. split; [done|]. by eexists. }
+      congruence.
+  - (* behind *)
+    intros s h' c v M M' x rest Hh' Hc Hb. cbn [f_db] in Hc.
+    destruct (Hsh s h' Hh') as [Hold|(-> & hs & e & Hs & Hne & -> & Hx2 & He & Hfq & Hl & HR & Hkind & Hknow)].
+    + destruct (mp_behind _ _ HP s h' c v M M' x rest Hold Hc Hb) as (Hst & Hxrun & a0 & fh0 & rid0 & lr0 & Hfh0 & Hk0 & Hrun0 & Hver0).
+      cbn [f_db f_hosts f_hist] in Hst, Hxrun, Hfh0.
+      assert (Hnoc : is_create q = true → q_shard q ≠ s) by (intros Hcq; by apply (Hnc s h' c v M M' x rest Hold Hc Hb h q HB Hcq)).
+      assert (Hsame : x'.2 !! s = hist !! s) by congruence.
+      split; [done|]. split.
+      * intros HMx a fh' lr' Hfh' Hk' . destruct (lr_running lr') eqn:Er; [|done]. exfalso.
+        destruct (exec_req_started h true (hosts, hist) q x' a fh' (s, x) lr' E Hfh' Hk' Er) as [(fh & lr & Hfh & Hk & Hr)|[Hcq Heq]].
+        -- cbn [fst] in Hfh. rewrite (Hxrun HMx a fh lr Hfh Hk) in Hr. done.
+        -- injection Heq as Heq _. by apply (Hnoc Hcq).
+      * (* the replica that knows the new version is a member, nothing touches it *)
+        assert (Hmem0 : ∃ b, M' !! rid0 = Some b).
+        { destruct (mp_nostray _ _ HP a0 fh0 s rid0 lr0 Hfh0 Hk0 Hrun0) as [(h1 & Hh1 & [b Hb1])|(h1 & Hh1 & _ & Hlt & _)];
+            cbn [f_hist] in Hh1; assert (h1 = h') as -> by congruence; destruct Hb as (-> & _); cbn in *; [by exists b|lia]. }
+        destruct (exec_req_keep h (hosts, hist) q x' a0 fh0 (s, rid0) lr0 E Hfh0 Hk0 Hrun0 Hsame) as (fh1 & Hfh1 & Hk1).
+        { intros Hkq y ms Hy Heq. injection Heq as Hsq <-.
+          destruct (mp_boxes _ _ HP h q HB) as [[[[Hg|[(Hch & _)|(_ & y' & Hy' & Hd)]]|[(Hcr & _)|(Hres & _)]] _]|[(Hch & _) _]].
+          - destruct Hg as (Hres & _). unfold is_restore, is_create in Hres. unfold is_kill in Hkq. by destruct (q_type q).
+          - unfold is_change, is_add, is_delete in Hch. unfold is_kill in Hkq. by destruct (q_type q).
+          - cbn [f_hist] in Hd. rewrite Hsq in Hd. specialize (Hd h' Hold). assert (y' = y) as -> by congruence.
+            destruct Hmem0 as [b Hb0]. destruct Hb as (-> & _). cbn in Hd. apply is_member_false in Hd. congruence.
+          - unfold is_create in Hcr. unfold is_kill in Hkq. by destruct (q_type q).
+          - unfold is_restore, is_create in Hres. unfold is_kill in Hkq. by destruct (q_type q).
+          - unfold is_change, is_add, is_delete in Hch. unfold is_kill in Hkq. by destruct (q_type q). }
+        exists a0, fh1, rid0, lr0. done.
+    + (* the shard whose history has just grown *)
+      destruct (mp_members _ _ HP (q_shard q) hs Hs) as (c0 & Hc0 & _). cbn [f_db] in Hc0. assert (c0 = c) as -> by congruence.
+      destruct (Hcur hs c Hs Hfq HR Hc) as [Hcc Hstamped].
+      destruct Hb as (Hhh & Hv & Hkb). destruct hs as [|[v0 M0] rest0]; [done|]. destruct e as [ev eM]. injection Hhh as -> -> -> -> ->.
+      cbn [cur_version cur_members fst snd] in *.
+      split; [done|]. split.
+      * intros HMx a fh' lr' Hfh' Hk'. exfalso.
+        destruct Hkind as [(Hia & xx & t & Hmm & Hee & Hnx)|(y & Hee & Hy)].
+        -- (* x is the added id: it has no data *)
+           assert (x = xx) as ->.
+           { destruct Hkb as [[_ [t' HM']]|[[? HMx'] _]]; [|congruence]. rewrite Hee in HM'.
+             destruct (decide (x = xx)) as [?|Hne']; [done|]. exfalso.
+             assert (Hl1 : <[xx := t]> M !! x = None) by (by rewrite lookup_insert_ne).
+             rewrite HM', lookup_insert in Hl1. done. }
+           destruct Hl as (_ & _ & _ & Hadd & _). destruct (Hadd Hia) as (x0 & t0 & Hm0 & _ & _ & _ & _ & _ & _ & Hnodata).
+           assert (x0 = xx) as -> by congruence.
+           destruct (Hkeys a fh' (q_shard q, xx) Hfh' ltac:(by eexists)) as [(fh0 & Hfh0 & [lr0 Hk0])|[Hcq _]].
+           ++ by rewrite (Hnodata a fh0 Hfh0) in Hk0.
+           ++ unfold is_add in Hia. unfold is_create in Hcq. by destruct (q_type q).
+        -- destruct Hkb as [[HMn [t' HM']]|[[? HMx'] _]]; [|congruence]. rewrite Hee in HM'.
+           assert (Hl1 : delete y M !! x = Some t') by (rewrite HM'; by rewrite lookup_insert).
+           apply lookup_delete_Some in Hl1 as [_ Hl1]. congruence.
+      * destruct Hknow as (fh' & rid & lr & Hfh' & Hk' & Hr' & Hv' & _). exists h, fh', rid, lr. split; [done|]. split; [done|]. split; [done|]. lia.
+  - apply (mp_waiting _ _ HP).
+  - apply (mp_onejoin _ _ HP).
+  - apply (hm_home _ _ HH').
+  - apply (hm_nostray _ _ HH').
+  - (* nocreate *)
+    intros s h' c v M M' x rest Hh' Hc Hb a0 q0 HB0 Hcq0. cbn [f_hist f_db] in Hh', Hc.
+    destruct (Hsh s h' Hh') as [Hold|(-> & hs & e & Hs & Hne & -> & Hx2 & He & Hfq & Hl & HR & Hkind & Hknow)].
+    + by apply (Hnc s h' c v M M' x rest Hold Hc Hb a0 q0).
+    + destruct Hl as (_ & _ & HBc & _). by apply (HBc a0 q0).
+Qed.
+
+(* exec_req touches the replica table of the executing NodeHost only *)
+Lemma exec_req_shape h ccok x q x' :
+  exec_req h ccok x q = Some x' → x' = x ∨ ∃ reps' hist', x' = (set_reps x.1 h reps', hist').
+Proof.
+  unfold exec_req. destruct (x.1 !! h) as [fh|]; [|intros [= <-]; by left].
+  destruct (q_type q).
+  - destruct (q_join q), (q_restore q); try done.
+    + destruct (fh_reps fh !! _); intros [= <-]; [unfold start_existing; destruct (_ || _); [by left|right; eauto]|].
+      destruct (busy _ _); [by left|right; eauto].
+    + destruct (fh_reps fh !! _); intros [= <-]; [|by left]. unfold start_existing; destruct (_ || _); [by left|right; eauto].
+    + destruct (fh_reps fh !! _); [done|]. intros [= <-]. destruct (busy _ _); [by left|right; eauto].
+  - destruct (q_members q); [done|]. intros [= <-]. destruct (hist_of x.2 (q_shard q)); [by left|]. destruct (_ && _); [right; eauto|by left].
+  - destruct (q_members q); [done|]. destruct (q_addrs q); [done|]. intros [= <-].
+    destruct (hist_of x.2 (q_shard q)); [by left|]. destruct (_ && _); [right; eauto|by left].
+  - destruct (q_members q); [done|]. intros [= <-]. destruct (fh_reps fh !! _) as [lr|]; [|by left]. destruct (lr_running lr); [right; eauto|by left].
+Qed.
+
+Lemma exec_all_frame h ccok qs : ∀ x x',
+  exec_all h ccok x qs = Some x' →
+  ∀ b, match x.1 !! b with
+       | Some fh => ∃ fh', x'.1 !! b = Some fh' ∧ fh_queue fh' = fh_queue fh ∧ fh_up fh' = fh_up fh ∧ fh_out fh' = fh_out fh
+       | None => x'.1 !! b = None
+       end.
+Proof.
+  induction qs as [|q qs IH]; intros x x' E b; cbn [exec_all] in E.
+  - injection E as <-. destruct (x.1 !! b) as [fh|]; [by exists fh|done].
+  - destruct (exec_req h ccok x q) as [x1|] eqn:E1; [|done]. specialize (IH x1 x' E b).
+    assert (Hstep : match x.1 !! b with
+                    | Some fh => ∃ fh', x1.1 !! b = Some fh' ∧ fh_queue fh' = fh_queue fh ∧ fh_up fh' = fh_up fh ∧ fh_out fh' = fh_out fh
+                    | None => x1.1 !! b = None end).
+    { destruct (exec_req_shape h ccok x q x1 E1) as [->|(reps' & hist' & ->)]; [destruct (x.1 !! b) as [fh|]; [by exists fh|done]|].
+      cbn [fst]. rewrite set_reps_lookup. destruct (x.1 !! h) as [fhh|] eqn:Ehh.
+      - destruct (decide (b = h)) as [->|Hne]; [rewrite Ehh; by eexists|]. destruct (x.1 !! b) as [fh|]; [by exists fh|done].
+      - destruct (x.1 !! b) as [fh|]; [by exists fh|done]. }
+    destruct (x.1 !! b) as [fh|].
+    + destruct Hstep as (fh1 & Hfh1 & Hq1 & Hu1 & Ho1). rewrite Hfh1 in IH. destruct IH as (fh' & Hfh' & Hq & Hu & Ho).
+      exists fh'. split; [done|]. split; [congruence|]. split; congruence.
+    + by rewrite Hstep in IH.
+Qed.
+
+(** * a NodeHost executes its queue *)
+Lemma mp_exec_all (Bx : N → request → Prop) d seen h qs : ∀ hosts hist x',
+  LI d hosts hist seen qs → MendP Bx (mkF d hosts hist seen) → nocreate Bx (mkF d hosts hist seen) →
+  (∀ q, q ∈ qs → Bx h q) → is_Some (hosts !! h) → exec_all h true (hosts, hist) qs = Some x' →
+  LI d x'.1 x'.2 seen [] ∧ MendP Bx (mkF d x'.1 x'.2 seen) ∧ nocreate Bx (mkF d x'.1 x'.2 seen).
+Proof.
+  induction qs as [|q qs IH]; intros hosts hist x' HI HP Hnc HB Hh E; cbn [exec_all] in E.
+  - by injection E as <-.
+  - destruct (exec_req h true (hosts, hist) q) as [[hosts1 hist1]|] eqn:E1; [|done].
+    destruct (mp_exec_req Bx d seen hosts hist h q qs _ HI HP Hnc (HB q ltac:(left)) Hh E1) as [HP1 Hnc1]. cbn [fst snd] in HP1, Hnc1.
+    apply (IH hosts1 hist1 x'); [|done|done| | |done].
+    + apply (exec_req_inv _ _ _ _ _ _ _ _ _ HI E1).
+    + intros q0 Hq0. apply HB. by right.
+    + destruct (exec_req_keys h true (hosts, hist) q _ E1) as [Hdom _]. by apply Hdom.
+Qed.
+
+(* weakening: fewer pending requests; NodeHost records that differ in the queue only *)
+Lemma lchange_shrink (B B' : N → request → Prop) hosts hist a q :
+  (∀ a' q', B' a' q' → B a' q') → lchange B hosts hist a q → lchange B' hosts hist a q.
+Proof. intros Hsub (H1 & H2 & H3 & H4). split; [done|]. split; [done|]. split; [|done]. intros a' q' HB'. apply (H3 a' q'). by apply Hsub. Qed.
+
+Lemma mp_shrink (B B' : N → request → Prop) st : (∀ a q, B' a q → B a q) → MendP B st → MendP B' st.
+Proof.
+  intros Hsub HP. destruct HP. split; try done.
+  intros a q HB'. destruct (mp_boxes0 a q (Hsub a q HB')) as [?|[Hl HR]]; [by left|right]. split; [|done]. by apply (lchange_shrink B).
+Qed.
+
+Lemma nocreate_shrink (B B' : N → request → Prop) st : (∀ a q, B' a q → B a q) → nocreate B st → nocreate B' st.
+Proof. intros Hsub Hnc s h c v M M' x rest Hh Hc Hb a q HB'. apply (Hnc s h c v M M' x rest Hh Hc Hb a q). by apply Hsub. Qed.
+
+Lemma mp_same_reps (B : N → request → Prop) d hosts hosts' hist seen :
+  (∀ b, match hosts !! b with
+        | Some fh => ∃ fh', hosts' !! b = Some fh' ∧ fh_reps fh' = fh_reps fh ∧ fh_up fh' = true ∧ fh_out fh' = None
+        | None => hosts' !! b = None end) →
+  MendP B (mkF d hosts hist seen) → MendP B (mkF d hosts' hist seen).
+Proof.
+  intros Hs HP.
+  assert (Hto : ∀ b fh, hosts !! b = Some fh → ∃ fh', hosts' !! b = Some fh' ∧ fh_reps fh' = fh_reps fh).
+  { intros b fh Hb. specialize (Hs b). rewrite Hb in Hs. destruct Hs as (fh' & ? & ? & _). by exists fh'. }
+  assert (Hfrom : ∀ b fh', hosts' !! b = Some fh' → ∃ fh, hosts !! b = Some fh ∧ fh_reps fh' = fh_reps fh ∧ fh_up fh' = true ∧ fh_out fh' = None).
+  { intros b fh' Hb. specialize (Hs b). destruct (hosts !! b) as [fh|]; [|congruence]. destruct Hs as (fh2 & H2 & ? & ? & ?).
+    assert (fh2 = fh') as -> by congruence. by exists fh. }
+  destruct HP. split; cbn [f_db f_hosts f_hist f_seen] in *; try done.
+  - intros b fh' Hb. destruct (Hfrom b fh' Hb) as (_ & _ & _ & ? & ?). done.
+  - intros a q HB. destruct (mp_boxes0 a q HB) as [?|[Hl HR]]; [by left|right]. split; [|done].
+    apply (lchange_frame B hosts hosts' hist hist); [done| | |done].
+    + intros a0 [fh0 H0]. destruct (Hto a0 fh0 H0) as (fh' & -> & _). by eexists.
+    + intros a0 fh' k H0 Hk _. destruct (Hfrom a0 fh' H0) as (fh & Hfh & Hr & _). exists fh. by rewrite <- Hr.
+  - intros s h Hh. destruct (mp_members0 s h Hh) as (c & Hc & Hcase & Hmem). exists c. split; [done|]. split; [done|].
+    intros rid a Hm. destruct (Hmem rid a Hm) as (? & ? & fh & Hfh & Hdata). split; [done|]. split; [done|].
+    destruct (Hto a fh Hfh) as (fh' & Hfh' & Hr). exists fh'. split; [done|]. by rewrite Hr.
+  - intros s h c v M M' x rest Hh Hc Hb. destruct (mp_behind0 s h c v M M' x rest Hh Hc Hb) as (H1 & H2 & a0 & fh0 & rid & lr & H3 & H4 & H5).
+    split; [done|]. split.
+    + intros HMx a fh' lr' Ha Hk. destruct (Hfrom a fh' Ha) as (fh & Hfh & Hr & _). rewrite Hr in Hk. by apply (H2 HMx a fh lr').
+    + destruct (Hto a0 fh0 H3) as (fh' & Hfh' & Hr). exists a0, fh', rid, lr. rewrite Hr. done.
+  - intros a fh' s rid lr h a' Ha Hk. destruct (Hfrom a fh' Ha) as (fh & Hfh & Hr & _). rewrite Hr in Hk. by apply (mp_home0 a fh s rid lr h a').
+  - intros a fh' s rid lr Ha Hk. destruct (Hfrom a fh' Ha) as (fh & Hfh & Hr & _). rewrite Hr in Hk. by apply (mp_nostray0 a fh s rid lr).
+Qed.
+
+(** * Part 3: the events of a healthy round *)
+(* the class at a round boundary, and in the middle of a round *)
+Definition MendB (st : fstate) : Prop := LoopInv st ∧ MendP (boxed_at st) st.
+Definition MendX (st : fstate) : Prop := MendB st ∧ nocreate (boxed_at st) st.
+
+Section MendB.
+Variable P : params.
+
+Lemma mendx_exec st a st' :
+  MendX st → fstep P st (EExec a true) = FOk st' → MendX st' ∧ f_db st' = f_db st.
+Proof.
+  destruct st as [d hosts hist seen]. intros [[HI HP] Hnc]. cbn [fstep f_db f_hosts f_hist f_seen].
+  destruct (hosts !! a) as [fh|] eqn:Ha; [|done]. destruct (mp_hosts _ _ HP a fh Ha) as [Hup Hout]. cbn [f_hosts] in Hup. rewrite Hup.
+  set (hosts0 := <[a := mkFHost true (fh_region fh) (fh_reps fh) [] (fh_out fh)]> hosts).
+  destruct (exec_all a true (hosts0, hist) (fh_queue fh)) as [x|] eqn:Ex; [|done]. intros [= <-].
+  set (st := mkF d hosts hist seen) in *.
+  pose proof (exec_start st a fh HI Ha) as HI0. cbn [f_db f_hosts f_hist f_seen st] in HI0. fold hosts0 in HI0.
+  assert (HP0 : MendP (boxed_at st) (mkF d hosts0 hist seen)).
+  { apply (mp_same_reps _ d hosts hosts0 hist seen); [|exact HP]. intros b. unfold hosts0. destruct (decide (b = a)) as [->|Hne].
+    - rewrite Ha, lookup_insert. eexists. split; [done|]. cbn. done.
+    - rewrite lookup_insert_ne by done. destruct (hosts !! b) as [fhb|] eqn:Hb; [|done]. exists fhb. split; [done|]. split; [done|].
+      apply (mp_hosts _ _ HP b fhb Hb). }
+  destruct (mp_exec_all (boxed_at st) d seen a (fh_queue fh) hosts0 hist x HI0 HP0 Hnc) as (HI' & HP' & Hnc'); [| |done|].
+  { intros q Hq. right; right. exists fh. done. }
+  { unfold hosts0. rewrite lookup_insert. by eexists. }
+  pose proof (exec_all_frame a true (fh_queue fh) (hosts0, hist) x Ex) as Hfr. cbn [fst] in Hfr.
+  assert (Hsub : ∀ b q, boxed_at (mkF d x.1 x.2 seen) b q → boxed_at st b q).
+  { intros b q [Hq|[Hq|(fh' & Hb & Hin)]]; [by left|by right; left|]. cbn [f_hosts] in Hb. specialize (Hfr b). unfold hosts0 in Hfr.
+    destruct (decide (b = a)) as [->|Hne].
+    - rewrite lookup_insert in Hfr. destruct Hfr as (fh2 & Hfh2 & Hq2 & _). assert (fh2 = fh') as -> by congruence. rewrite Hq2 in Hin. by apply elem_of_nil in Hin.
+    - rewrite lookup_insert_ne in Hfr by done. destruct (hosts !! b) as [fhb|] eqn:Hbb; [|congruence]. destruct Hfr as (fh2 & Hfh2 & Hq2 & _).
+      assert (fh2 = fh') as -> by congruence. right; right. exists fhb. split; [done|]. by rewrite <- Hq2. }
+  split; [|done]. split; [split|].
+  - exact HI'.
+  - by apply (mp_shrink (boxed_at st)).
+  - by apply (nocreate_shrink (boxed_at st)).
+Qed.
+
+Lemma mendx_tick st st' :
+  MendX st → fstep P st ETick = FOk st' →
+  MendX st' ∧ f_db st' = set_tick (f_db st) (d_tick (f_db st) + p_step P) ∧ f_hosts st' = f_hosts st ∧ f_hist st' = f_hist st.
+Proof.
+  intros [[HI HP] Hnc] E. pose proof (step_tick P st st' HI E) as HI'. pose proof (fstep_time_ok P st ETick st' E (mp_timeok _ _ HP)) as Hto.
+  cbn [fstep] in E. unfold db_step in E. rewrite (li_failed _ _ _ _ _ HI) in E. unfold apply_tick in E.
+  cbn [d_deadline set_tick] in E. rewrite (li_deadline _ _ _ _ _ HI) in E. cbn [N.ltb andb] in E. injection E as <-.
+  split; [|done]. split; [split; [exact HI'|]|].
+  - destruct HP. split; cbn [set_db f_db f_hosts f_hist f_seen] in *; try done. cbn. lia.
+  - exact Hnc.
+Qed.
+
+Lemma mendx_learn st a s r v st' :
+  MendX st → is_Some (cur_members (hist_of (f_hist st) s) !! r) → fstep P st (ELearn a s r v) = FOk st' →
+  MendX st' ∧ f_db st' = f_db st ∧ f_hist st' = f_hist st.
+Proof.
+  intros [[HI HP] Hnc] Hmem E. pose proof (step_inv P st (ELearn a s r v) st' HI I E) as HI'.
+  destruct st as [d hosts hist seen]. cbn [fstep f_db f_hosts f_hist f_seen] in *.
+  destruct (hosts !! a) as [fh|] eqn:Ha; [|done]. destruct (fh_reps fh !! (s, r)) as [lr|] eqn:Ek; [|done].
+  destruct (fh_up fh && lr_running lr && (lr_ver lr <? v) && _) eqn:Econd; [|done]. injection E as <-.
+  apply andb_true_iff in Econd as [Econd Hent]. apply andb_true_iff in Econd as [Econd Hlt]. apply andb_true_iff in Econd as [Hup Hrun].
+  apply bool_decide_eq_true in Hent. apply N.ltb_lt in Hlt.
+  unfold hist_of in Hmem, Hent. destruct (hist !! s) as [h|] eqn:Hh; [|by destruct Hmem]. cbn [default from_option id] in Hmem, Hent.
+  pose proof (li_hist _ _ _ _ _ HI s h Hh) as Hw. cbn in Hw.
+  assert (Hrem : removed_at (hist_of hist s) r v = false).
+  { unfold hist_of. rewrite Hh. cbn [default from_option id]. by apply (member_not_removed_wf _ h r v Hw). }
+  assert (Hvle : v ≤ cur_version h).
+  { destruct Hent as [Mv Hent]. apply entry_at_Some in Hent. apply (hist_wf_le _ _ Hw _ Hent). }
+  unfold set_host in *. cbn [f_db f_hosts f_hist f_seen] in *. rewrite Hrem in *. cbn [negb] in *.
+  set (reps' := <[(s, r) := mkLRep true v]> (fh_reps fh)) in *.
+  set (fh' := mkFHost true (fh_region fh) reps' (fh_queue fh) (fh_out fh)) in *.
+  set (st := mkF d hosts hist seen). set (st' := mkF d (<[a := fh']> hosts) hist seen).
+  assert (Hl' : ∀ b fhb', <[a := fh']> hosts !! b = Some fhb' → (b = a ∧ fhb' = fh') ∨ (b ≠ a ∧ hosts !! b = Some fhb')).
+  { intros b fhb'. destruct (decide (b = a)) as [->|Hne]; [rewrite lookup_insert; intros [= <-]; by left|rewrite lookup_insert_ne by done; by right]. }
+  assert (Hkeys : ∀ k, is_Some (reps' !! k) ↔ is_Some (fh_reps fh !! k)).
+  { intros k. unfold reps'. destruct (decide (k = (s, r))) as [->|Hne]; [rewrite lookup_insert, Ek; split; intros _; by eexists|by rewrite lookup_insert_ne]. }
+  assert (Hsub : ∀ b q, boxed_at st' b q → boxed_at st b q).
+  { intros b q [Hq|[Hq|(fhb' & Hb & Hin)]]; [by left|by right; left|]. right; right. cbn [st' f_hosts] in Hb.
+    destruct (Hl' b fhb' Hb) as [[-> ->]|[Hne Hb0]]; [exists fh; done|by exists fhb']. }
+  split; [|done]. split; [split; [exact HI'|]|by apply (nocreate_shrink (boxed_at st))].
+  apply (mp_shrink (boxed_at st)); [exact Hsub|].
+  destruct (mp_hosts _ _ HP a fh Ha) as [_ Hout]. cbn [f_hosts] in Hout.
+  destruct HP. split; cbn [st' f_db f_hosts f_hist f_seen] in *; try done.
+  - intros b fhb' Hb. destruct (Hl' b fhb' Hb) as [[-> ->]|[Hne Hb0]]; [done|by apply (mp_hosts0 b)].
+  - intros b q HB. destruct (mp_boxes0 b q HB) as [?|[Hl HR]]; [by left|right]. split; [|done].
+    apply (lchange_frame _ hosts _ hist hist); [done| | |done].
+    + intros a0 [fh0 H0]. destruct (decide (a0 = a)) as [->|Hne]; [rewrite lookup_insert; by eexists|rewrite lookup_insert_ne by done; by eexists].
+    + intros a0 fhb' k H0 Hk _. destruct (Hl' a0 fhb' H0) as [[-> ->]|[Hne Hb0]]; [exists fh; split; [done|]; by apply Hkeys|by exists fhb'].
+  - intros s0 h0 Hh0. destruct (mp_members0 s0 h0 Hh0) as (c & Hc & Hcase & Hm0). exists c. split; [done|]. split; [done|].
+    intros rid b Hm. destruct (Hm0 rid b Hm) as (? & ? & fhb & Hfhb & Hdata). split; [done|]. split; [done|].
+    destruct (decide (b = a)) as [->|Hne].
+    + rewrite lookup_insert. exists fh'. split; [done|]. intros Hst. assert (fhb = fh) as -> by congruence. apply Hkeys. by apply Hdata.
+    + rewrite lookup_insert_ne by done. by exists fhb.
+  - intros s0 h0 c v0 M M' x rest Hh0 Hc Hb. destruct (mp_behind0 s0 h0 c v0 M M' x rest Hh0 Hc Hb) as (H1 & H2 & a0 & fh0 & rid & lr0 & H3 & H4 & H5 & H6).
+    split; [done|]. split.
+    + intros HMx b fhb' lr' Hb' Hk'. destruct (Hl' b fhb' Hb') as [[-> ->]|[Hne Hb0]]; [|by apply (H2 HMx b fhb' lr')].
+      cbn [fh' fh_reps] in Hk'. unfold reps' in Hk'. destruct (decide ((s0, x) = (s, r))) as [Heq|Hne].
+      * injection Heq as -> ->. rewrite (H2 HMx a fh lr Ha Ek) in Hrun. done.
+      * rewrite lookup_insert_ne in Hk' by done. by apply (H2 HMx a fh lr').
+    + destruct (decide (a0 = a ∧ (s0, rid) = (s, r))) as [[-> Heq]|Hne].
+      * exfalso. injection Heq as -> ->. assert (fh0 = fh) as -> by congruence. assert (lr0 = lr) as -> by congruence.
+        assert (h0 = h) as -> by congruence. destruct Hb as (-> & _). cbn in Hvle. lia.
+      * destruct (decide (a0 = a)) as [->|Hna].
+        -- assert (fh0 = fh) as -> by congruence. exists a, fh', rid, lr0. rewrite lookup_insert. split; [done|]. cbn [fh' fh_reps]. unfold reps'.
+           rewrite lookup_insert_ne; [done|]. intros Heq. apply Hne. done.
+        -- exists a0, fh0, rid, lr0. rewrite lookup_insert_ne by done. done.
+  - intros b fhb' s0 rid lr0 h0 a' Hb' Hk'. destruct (Hl' b fhb' Hb') as [[-> ->]|[Hne Hb0]]; [|by apply (mp_home0 b fhb' s0 rid lr0 h0 a')].
+    cbn [fh' fh_reps] in Hk'. assert (is_Some (fh_reps fh !! (s0, rid))) as [lr1 Hk1] by (apply Hkeys; by eexists).
+    by apply (mp_home0 a fh s0 rid lr1 h0 a').
+  - intros b fhb' s0 rid lr0 Hb' Hk' Hr'. destruct (Hl' b fhb' Hb') as [[-> ->]|[Hne Hb0]]; [|by apply (mp_nostray0 b fhb' s0 rid lr0)].
+    cbn [fh' fh_reps] in Hk'. unfold reps' in Hk'. destruct (decide ((s0, rid) = (s, r))) as [Heq|Hne].
+    + injection Heq as -> ->. left. by exists h.
+    + rewrite lookup_insert_ne in Hk' by done. by apply (mp_nostray0 a fh s0 rid lr0).
+Qed.
+(* at most one replica of a shard runs on a NodeHost *)
+Lemma mendb_one_running st a fh s r1 r2 l1 l2 :
+  LoopInv st → MendP (boxed_at st) st → f_hosts st !! a = Some fh → fh_reps fh !! (s, r1) = Some l1 → fh_reps fh !! (s, r2) = Some l2 →
+  lr_running l1 = true → lr_running l2 = true →
+  (∀ h, f_hist st !! s = Some h → cur_version h ≤ lr_ver l1 ∧ cur_version h ≤ lr_ver l2) → r1 = r2.
+Proof.
+  intros HI HA Ha H1 H2 R1 R2 Hvers.
+  destruct (mp_nostray _ _ HA a fh s r1 l1 Ha H1 R1) as [(h & Hh & [a1 Hm1])|(h & Hh & _ & Hlt & _)]; [|destruct (Hvers h Hh); lia].
+  destruct (mp_nostray _ _ HA a fh s r2 l2 Ha H2 R2) as [(h' & Hh' & [a2 Hm2])|(h' & Hh' & _ & Hlt & _)]; [|destruct (Hvers h' Hh'); lia].
+  assert (h' = h) as -> by congruence.
+  pose proof (mp_home _ _ HA a fh s r1 l1 h a1 Ha H1 Hh Hm1) as ->. pose proof (mp_home _ _ HA a fh s r2 l2 h a2 Ha H2 Hh Hm2) as ->.
+  destruct (cur_entry_at _ _ _ HI Hh) as [_ Hcurin].
+  destruct (hist_wf_mem_ok _ _ (li_hist _ _ _ _ _ HI _ _ Hh) _ Hcurin) as [_ Hinj]. cbn [snd] in Hinj. eauto.
+Qed.
+
+
+(* the entries of a report: which are complete *)
+Lemma mendb_info_complete st a fh plog ci :
+  LoopInv st → MendP (boxed_at st) st → f_hosts st !! a = Some fh → ci ∈ rp_infos (host_report (f_db st) (f_hist st) a fh plog) → complete ci = true →
+  ∃ rid lr h c v M M' x rest, fh_reps fh !! (si_shard ci, rid) = Some lr ∧ lr_running lr = true ∧ si_replica ci = rid ∧
+    f_hist st !! si_shard ci = Some h ∧ d_view (f_db st) !! si_shard ci = Some c ∧ behind h c v M M' x rest ∧
+    lr_ver lr = v + 1 ∧ si_cci ci = v + 1.
+Proof.
+  intros HI HA Ha Hci Hcomp. unfold host_report in Hci. cbn [rp_infos] in Hci.
+  apply elem_of_list_fmap in Hci as ([[s rid] lr] & -> & Hin). apply elem_of_list_filter in Hin as [Hrun Hin].
+  apply sorted_reps_elem in Hin. cbn in Hrun, Hin.
+  assert (∃ h, f_hist st !! s = Some h) as [h Hh].
+  { destruct (mp_nostray _ _ HA _ _ _ _ _ Ha Hin Hrun) as [(h & Hh & _)|(h & Hh & _)]; by exists h. }
+  destruct (mp_members _ _ HA _ _ Hh) as (c & Hc & Hcase & _).
+  pose proof (rep_ver_le st a fh s rid lr h HI Ha Hin Hh) as Hle.
+  unfold rep_info, complete in Hcomp |- *. cbn [fst snd] in Hcomp |- *. destruct (lr_ver lr =? 0) eqn:Ez; [done|].
+  cbn [si_shard si_replica si_cci]. unfold view_vers in Hcomp. rewrite lookup_fmap, Hc in Hcomp. cbn in Hcomp.
+  destruct (lr_ver lr <=? s_cci c) eqn:Ele; [done|]. apply N.leb_gt in Ele.
+  destruct Hcase as [Hcc|(v & M & M' & x & rest & Hb)]; [lia|].
+  exists rid, lr, h, c, v, M, M', x, rest. pose proof Hb as (Hhh & Hv & _). rewrite Hhh in Hle. cbn in Hle.
+  repeat (split; [done|]). split; lia.
+Qed.
+
+Lemma mendb_n_complete st a fh plog s :
+  LoopInv st → MendP (boxed_at st) st → f_hosts st !! a = Some fh → (n_complete s (rp_infos (host_report (f_db st) (f_hist st) a fh plog)) ≤ 1)%nat.
+Proof.
+  intros HI HA Ha. unfold n_complete.
+  set (l := filter (λ ci, complete_for s ci = true) (rp_infos (host_report (f_db st) (f_hist st) a fh plog))).
+  destruct l as [|c1 [|c2 l']] eqn:El; cbn [length]; [lia|lia|]. exfalso.
+  assert (Hnd : NoDup l).
+  { unfold l. apply NoDup_filter. unfold host_report. cbn [rp_infos]. apply NoDup_fmap_2_strong.
+    - intros [k1 l1] [k2 l2] H1 H2 Heq. apply elem_of_list_filter in H1 as [_ H1]. apply elem_of_list_filter in H2 as [_ H2].
+      apply sorted_reps_elem in H1, H2. cbn in H1, H2.
+      assert (k1 = k2) as ->.
+      { destruct k1 as [s1 r1], k2 as [s2 r2]. unfold rep_info in Heq. cbn [fst snd] in Heq.
+        destruct (lr_ver l1 =? 0), (lr_ver l2 =? 0); by injection Heq as -> ->. }
+      congruence.
+    - apply NoDup_filter. unfold sorted_reps. rewrite merge_sort_Permutation. apply NoDup_map_to_list. }
+  assert (Hall : ∀ ci, ci ∈ l → ∃ rid lr, fh_reps fh !! (s, rid) = Some lr ∧ lr_running lr = true ∧
+            ci = rep_info (view_vers (f_db st)) (f_hist st) (s, rid) lr ∧
+            ∀ h, f_hist st !! s = Some h → cur_version h ≤ lr_ver lr).
+  { intros ci Hci. unfold l in Hci. apply elem_of_list_filter in Hci as [Hcf Hci].
+    unfold complete_for in Hcf. apply andb_true_iff in Hcf as [Hcf Hcomp]. apply andb_true_iff in Hcf as [Hs Hpend]. apply N.eqb_eq in Hs.
+    assert (Hcomp' : complete ci = true) by (unfold complete; by rewrite Hpend, Hcomp).
+    destruct (mendb_info_complete st a fh plog ci HI HA Ha Hci Hcomp') as (rid0 & lr0 & h0 & c0 & v0 & M0 & M0' & x0 & rest0 & Hk0 & Hr0 & Hrid0 & Hh0 & _ & Hb0 & Hv0 & _).
+    unfold host_report in Hci. cbn [rp_infos] in Hci.
+    apply elem_of_list_fmap in Hci as ([[s0 rid] lr] & -> & Hin). apply elem_of_list_filter in Hin as [Hrun Hin].
+    apply sorted_reps_elem in Hin. cbn in Hrun, Hin.
+    assert (s0 = s) as -> by (unfold rep_info in Hs; cbn [fst snd] in Hs; by destruct (lr_ver lr =? 0)).
+    assert (Hsi : si_shard (rep_info (view_vers (f_db st)) (f_hist st) (s, rid) lr) = s) by (unfold rep_info; by destruct (lr_ver lr =? 0)).
+    assert (Hri : si_replica (rep_info (view_vers (f_db st)) (f_hist st) (s, rid) lr) = rid) by (unfold rep_info; by destruct (lr_ver lr =? 0)).
+    cbn [fst snd] in Hk0, Hrid0, Hh0. rewrite Hsi in Hk0, Hh0. rewrite Hri in Hrid0. subst rid0.
+    assert (lr0 = lr) as -> by congruence.
+    exists rid, lr. split; [done|]. split; [done|]. split; [done|]. intros h Hh. assert (h = h0) as -> by congruence.
+    destruct Hb0 as (-> & _). cbn. lia. }
+  destruct (Hall c1) as (r1 & l1 & K1 & R1 & E1 & V1); [rewrite El; left|].
+  destruct (Hall c2) as (r2 & l2 & K2 & R2 & E2 & V2); [rewrite El; right; left|].
+  assert (r1 = r2) as -> by (apply (mendb_one_running st a fh s r1 r2 l1 l2 HI HA Ha K1 K2 R1 R2); intros h Hh; split; [by apply V1|by apply V2]).
+  assert (l2 = l1) as -> by congruence.
+  rewrite El in Hnd. apply NoDup_cons in Hnd as [Hnotin _]. apply Hnotin. rewrite E1, E2. left.
+Qed.
+
+(** * one host reports *)
+Lemma mendb_report st a fh plog :
+  LoopInv st → MendP (boxed_at st) st → f_hosts st !! a = Some fh →
+  ∃ st', steps P st [ESnap a plog; EDeliver a false] = Some st' ∧ (LoopInv st' ∧ MendP (boxed_at st') st') ∧
+    (∀ a', a' ≠ a → d_outgoing (f_db st') !! a' = d_outgoing (f_db st) !! a') ∧
+    d_outgoing (f_db st') !! a = d_requests (f_db st) !! a ∧
+    (∀ b q, boxed_at st' b q → boxed_at st b q) ∧
+    f_hist st' = f_hist st ∧ f_seen st' = f_seen st ∧
+    d_tick (f_db st') = d_tick (f_db st) ∧ d_shards (f_db st') = d_shards (f_db st) ∧
+    d_requests (f_db st') = delete a (d_requests (f_db st)) ∧
+    f_hosts st' = <[a := mkFHost true (fh_region fh) (fh_reps fh) (fh_queue fh ++ default [] (d_requests (f_db st) !! a)) None]> (f_hosts st) ∧
+    (∀ s h c, f_hist st !! s = Some h → d_view (f_db st) !! s = Some c →
+       ∃ c', d_view (f_db st') !! s = Some c' ∧ (s_cci c' = s_cci c ∨ s_cci c' = cur_version h) ∧
+             (s_cci c = cur_version h → s_cci c' = cur_version h) ∧
+             ((∃ rid lr, fh_reps fh !! (s, rid) = Some lr ∧ lr_running lr = true ∧ lr_ver lr = cur_version h) → s_cci c' = cur_version h)) ∧
+    (∀ s rid, stamped (f_db st') s rid → stamped (f_db st) s rid ∨ runs_on fh s rid = true) ∧
+    (∃ h, d_hosts (f_db st') !! a = Some h ∧ h_tick h = d_tick (f_db st) ∧
+          (plog = true → ∀ k, is_Some (fh_reps fh !! k) → k ∈ h_plog h)) ∧
+    (∀ a' h, a' ≠ a → d_hosts (f_db st) !! a' = Some h →
+       ∃ h', d_hosts (f_db st') !! a' = Some h' ∧ h_tick h' = h_tick h ∧ h_plog h' = h_plog h).
+Proof.
+  intros HI HC Ha. destruct (mp_hosts _ _ HC _ _ Ha) as (Hup & Hout).
+  set (r := host_report (f_db st) (f_hist st) a fh plog).
+  set (fh1 := mkFHost true (fh_region fh) (fh_reps fh) (fh_queue fh) (Some r)).
+  set (st1 := set_host st a fh1).
+  assert (E1 : fstep P st (ESnap a plog) = FOk st1) by (cbn [fstep]; by rewrite Ha, Hup).
+  pose proof (step_inv P st (ESnap a plog) st1 HI I E1) as HI1.
+  assert (Ha1 : f_hosts st1 !! a = Some fh1) by (unfold st1, set_host; cbn; by rewrite lookup_insert).
+  pose proof (step_deliver_no_panic P st1 a false HI1) as Hnp.
+  cbn [fstep] in Hnp. rewrite Ha1 in Hnp. cbn [fh_up fh1 fh_out] in Hnp.
+  destruct (db_step P (f_db st1) (CReport r)) as [d' v0| |] eqn:Es; try done. clear Hnp.
+  set (fh2 := mkFHost true (fh_region fh1) (fh_reps fh1) (fh_queue fh1 ++ lookup_requests d' a) None).
+  set (st2 := mkF d' (<[a := fh2]> (f_hosts st1)) (f_hist st1) (f_seen st1)).
+  assert (E2 : fstep P st1 (EDeliver a false) = FOk st2).
+  { cbn [fstep]. rewrite Ha1. cbn [fh_up fh1 fh_out]. by rewrite Es. }
+  pose proof (step_inv P st1 (EDeliver a false) st2 HI1 I E2) as HI2.
+  change (f_db st1) with (f_db st) in Es.
+  assert (Hn : next P (f_db st) (CReport r) = Some d') by (unfold next; by rewrite Es).
+  pose proof Hn as Hn'. apply next_cases in Hn' as [[Hf' _]|[_ (view' & kill' & Hvu & Ed')]];
+    [rewrite (li_failed _ _ _ _ _ HI) in Hf'; done|].
+  pose proof (li_deadline _ _ _ _ _ HI) as Hdl.
+  destruct (report_result_all (f_db st) (stamp (f_db st) r) view' kill' Hdl) as (F1 & F2 & F3 & F4 & F5 & F6 & F7 & F8).
+  destruct (report_result_mail (f_db st) (stamp (f_db st) r) view' kill' Hdl) as [Hreply Hreqs].
+  rewrite <- Ed' in F1, F2, F3, F4, F5, F6, F7, F8, Hreply, Hreqs.
+  change (rp_addr (stamp (f_db st) r)) with a in Hreply, Hreqs.
+  assert (Hout1 : ∀ a', a' ≠ a → d_outgoing d' !! a' = d_outgoing (f_db st) !! a').
+  { intros a' Hne. rewrite Ed'. unfold report_result, on_updated_shard_info, pickup. cbn.
+    change (rp_addr (stamp (f_db st) r)) with a.
+    destruct (d_requests (f_db st) !! a) as [qs0|] eqn:Erq; cbn; rewrite Hdl; cbn.
+    - rewrite lookup_insert_ne by done. by rewrite lookup_delete_ne.
+    - by rewrite lookup_delete_ne. }
+  assert (Hout2 : d_outgoing d' !! a = d_requests (f_db st) !! a).
+  { rewrite Ed'. unfold report_result, on_updated_shard_info, pickup. cbn.
+    change (rp_addr (stamp (f_db st) r)) with a.
+    destruct (d_requests (f_db st) !! a) as [qs0|] eqn:Erq; cbn; rewrite Hdl; cbn.
+    - by rewrite lookup_insert.
+    - by rewrite lookup_delete. }
+  assert (Htick : d_tick d' = d_tick (f_db st)).
+  { rewrite Ed'. by destruct (DBTimeProofs.report_result_fields (f_db st) (stamp (f_db st) r) view' kill') as (Et & _). }
+  assert (Hhosts2 : <[a := fh2]> (f_hosts st1) =
+            <[a := mkFHost true (fh_region fh) (fh_reps fh) (fh_queue fh ++ default [] (d_requests (f_db st) !! a)) None]> (f_hosts st)).
+  { unfold st1, set_host. cbn [f_hosts]. rewrite insert_insert. unfold fh2, fh1. cbn. by rewrite Hreply. }
+  assert (Hst2 : st2 = mkF d' (<[a := mkFHost true (fh_region fh) (fh_reps fh) (fh_queue fh ++ default [] (d_requests (f_db st) !! a)) None]> (f_hosts st))
+                        (f_hist st) (f_seen st)).
+  { unfold st2. rewrite Hhosts2. done. }
+  pose proof (step_ver_mono P (f_db st) _ d' Hn) as Hmono. apply ver_mono_view_le in Hmono as Hvle.
+  assert (Hview2 : view_inv (Hf (f_hist st)) (d_view d')) by (apply (li_view _ _ _ _ _ HI2)).
+  (* versions *)
+  assert (Hvers : ∀ s h c, f_hist st !! s = Some h → d_view (f_db st) !! s = Some c →
+            ∃ c', d_view d' !! s = Some c' ∧ s_cci c ≤ s_cci c' ∧ s_cci c' ≤ cur_version h ∧
+                  entry_at h (s_cci c') = Some (r_addr <$> s_reps c')).
+  { intros s h c Hh Hc. destruct (Hvle _ _ Hc) as (c' & Hc' & Hle). exists c'. split; [done|]. split; [done|].
+    destruct (Hview2 s c' Hc') as (_ & HH & _). unfold Hf, hist_of in HH. rewrite Hh in HH. cbn in HH. split; [|done].
+    apply (hist_wf_le _ _ (li_hist _ _ _ _ _ HI _ _ Hh) _ (entry_at_Some _ _ _ HH)). }
+  assert (Hviewdom : ∀ s c', d_view d' !! s = Some c' → is_Some (d_view (f_db st) !! s)).
+  { intros s c' Hc'. destruct (d_view (f_db st) !! s) as [c|] eqn:Ec; [by eexists|]. exfalso.
+    (* a view appears only for a complete entry *)
+    pose proof (view_update_grows _ _ _ _ _ _ s Hvu) as Hg. unfold ver in Hg. rewrite Ec in Hg. rewrite F4 in Hc'.
+    rewrite Hc' in Hg. cbn in Hg. destruct Hg as [[?|Hin] _]; [done|].
+    unfold entry_versions in Hin. apply elem_of_list_bind in Hin as (ci & Hin & Hci). cbn [stamp rp_infos] in Hci.
+    destruct (decide _) as [[Hs Hcomp]|]; [|by apply elem_of_nil in Hin].
+    destruct (mendb_info_complete st a fh plog ci HI HC Ha Hci Hcomp) as (_ & _ & _ & c0 & _ & _ & _ & _ & _ & _ & _ & _ & _ & Hc0 & _).
+    rewrite Hs in Hc0. congruence. }
+  (* times *)
+  assert (Hticks : ∀ s rid n', rec_of (d_view d') s rid = Some n' →
+            (∃ n, rec_of (d_view (f_db st)) s rid = Some n ∧ r_first n' = r_first n ∧
+                  r_tick n' = if runs_on fh s rid then d_tick (f_db st) else r_tick n) ∨
+            (rec_of (d_view (f_db st)) s rid = None ∧ r_first n' = d_tick (f_db st) ∧
+             r_tick n' = if runs_on fh s rid then d_tick (f_db st) else 0)).
+  { intros s rid n' Hrec.
+    destruct (step_times P (f_db st) (CReport r) d' s rid n' Hn Hrec) as [(n0 & Hn0 & Hfi & Htk)|(r0 & Er0 & _ & Hor & Hfi & Htk)].
+    - left. exists n0. split; [done|]. split; [done|]. rewrite (li_failed _ _ _ _ _ HI) in Htk. cbn [negb andb names_cmd] in Htk.
+      unfold r in Htk. rewrite (report_names_runs st a fh plog s rid Ha) in Htk. done.
+    - injection Er0 as <-. destruct Hor as [Hnone|Hmulti].
+      + right. split; [done|]. split; [done|]. cbn [names_cmd] in Htk. unfold r in Htk.
+        rewrite (report_names_runs st a fh plog s rid Ha) in Htk. done.
+      + exfalso. unfold multi_entry in Hmulti. pose proof (mendb_n_complete st a fh plog s HI HC Ha). fold r in H. lia. }
+  assert (Hstamped : ∀ s rid, stamped d' s rid → stamped (f_db st) s rid ∨ runs_on fh s rid = true).
+  { intros s rid (n' & Hrec' & Hnz). destruct (Hticks s rid n' Hrec') as [(n & Hrec & _ & Htk)|(_ & _ & Htk)].
+    - destruct (runs_on fh s rid); [by right|]. left. exists n. split; [done|]. congruence.
+    - destruct (runs_on fh s rid); [by right|]. congruence. }
+  (* the report is consistent with the history *)
+  assert (Hrok : Forall (DBViewProofs.entry_ok (Hf (f_hist st))) (rp_infos (stamp (f_db st) r))).
+  { cbn [stamp rp_infos]. eapply Forall_impl; [eapply (host_report_ok _ _ _ _ _ a fh plog HI Ha)|]. by intros ci [He _]. }
+  (* the kill list: only replicas of removed members are added *)
+  assert (Hkill' : ∀ k, k ∈ kill' → k_shard k ≠ 0 ∧ k_replica k ≠ 0 ∧ k_addr k ≠ 0).
+  { unfold view_update in Hvu.
+    destruct (update_entries (d_tick (f_db st)) (d_view (f_db st), []) (rp_infos (stamp (f_db st) r))) as [[view1 tokill]|] eqn:Eu; [|done].
+    injection Hvu as _ <-. intros k Hk. apply elem_of_app in Hk as [Hk|Hk].
+    { apply elem_of_list_filter in Hk as [_ Hk]. by apply (mp_kill _ _ HC). }
+    apply elem_of_list_fmap in Hk as (ci & -> & Hci). cbn [k_shard k_replica k_addr stamp rp_addr].
+    destruct (update_entries_tokill (Hf (f_hist st)) _ _ _ _ _ _ (li_view _ _ _ _ _ HI) Hrok Eu ci Hci)
+      as [Hnil|(Hin & vm & ec & Hvi & Hvm & Hl & Hkr)]; [by apply elem_of_nil in Hnil|].
+    cbn [stamp rp_infos] in Hin. unfold r, host_report in Hin. cbn [rp_infos] in Hin.
+    apply elem_of_list_fmap in Hin as ([[s rid] lr] & -> & Hin). apply elem_of_list_filter in Hin as [Hrun Hin].
+    apply sorted_reps_elem in Hin. cbn in Hrun, Hin. cbn [fst snd] in Hl, Hkr.
+    assert (Hs : si_shard (rep_info (view_vers (f_db st)) (f_hist st) (s, rid) lr) = s) by (unfold rep_info; by destruct (lr_ver lr =? 0)).
+    assert (Hr : si_replica (rep_info (view_vers (f_db st)) (f_hist st) (s, rid) lr) = rid) by (unfold rep_info; by destruct (lr_ver lr =? 0)).
+    cbn [fst snd]. rewrite Hs, Hr.
+    destruct (mp_nostray _ _ HC _ _ _ _ _ Ha Hin Hrun) as [(h & Hh & [am Hm])|(h & Hh & _ & _ & _ & ? & ? & ?)]; [exfalso|done].
+    destruct (mp_members _ _ HC _ _ Hh) as (c & Hc & Hcase & _).
+    rewrite Hs in Hl. destruct (Hvi _ _ Hl) as (_ & HH & _). unfold Hf, hist_of in HH. rewrite Hh in HH. cbn in HH.
+    pose proof (li_hist _ _ _ _ _ HI _ _ Hh) as Hw.
+    pose proof (hist_wf_le _ _ Hw _ (entry_at_Some _ _ _ HH)) as Hle. cbn [fst] in Hle.
+    assert (Hge : s_cci c ≤ s_cci ec).
+    { destruct (Hvm s (s_cci c)) as (v' & Hv' & Hvle'); [unfold ver; by rewrite Hc|].
+      unfold ver in Hv'. rewrite Hl in Hv'. cbn in Hv'. injection Hv' as <-. lia. }
+    (* rid is a member of the entry ec shows *)
+    assert (Hmem : is_Some ((r_addr <$> s_reps ec) !! rid)).
+    { destruct Hcase as [Hcc|(v & M & M' & x & rest & Hb)].
+      - assert (Heq : s_cci ec = cur_version h) by lia. destruct (cur_entry_at _ _ _ HI Hh) as [Hcur _].
+        rewrite Heq, Hcur in HH. injection HH as HH. rewrite <- HH. by eexists.
+      - destruct (mp_behind _ _ HC s h c v M M' x rest Hh Hc Hb) as (_ & Hxrun & _).
+        assert (Hnx : rid ≠ x).
+        { intros ->. destruct Hb as (Hhh0 & _ & [[HMx _]|[_ HM']]).
+          - rewrite (Hxrun HMx a fh lr Ha Hin) in Hrun; done.
+          - rewrite Hhh0 in Hm. cbn in Hm. rewrite HM', lookup_delete in Hm. done. }
+        pose proof (behind_other _ _ _ _ _ _ _ rid Hb Hnx) as Hsame. destruct Hb as (Hhh & Hv & _).
+        rewrite Hhh in Hm, HH, Hle. cbn in Hm, HH, Hle.
+        destruct (s_cci ec =? v + 1) eqn:Ev1.
+        + destruct (v + 1 =? s_cci ec) eqn:Ev1'; [|apply N.eqb_eq in Ev1; apply N.eqb_neq in Ev1'; lia].
+          injection HH as HH. rewrite <- HH. by eexists.
+        + apply N.eqb_neq in Ev1. assert (s_cci ec = v) as Hev by lia.
+          assert ((v + 1 =? s_cci ec) = false) as Ev2 by (apply N.eqb_neq; lia). rewrite Ev2 in HH.
+          rewrite Hev, N.eqb_refl in HH. injection HH as HH. rewrite <- HH, <- Hsame. by eexists. }
+    rewrite lookup_fmap in Hmem. apply fmap_is_Some in Hmem as [n0 Hn0].
+    unfold kill_required in Hkr. rewrite Hr, Hn0 in Hkr. by destruct (s_cci ec <=? _). }
+  exists st2. split.
+  { cbn [steps]. rewrite E1, E2. done. }
+  assert (Hrepsame : ∀ a0 fh0, f_hosts st2 !! a0 = Some fh0 → ∃ fh', f_hosts st !! a0 = Some fh' ∧ fh_reps fh0 = fh_reps fh' ∧ fh_up fh0 = true ∧ fh_out fh0 = None).
+  { intros a0 fh0. rewrite Hst2. cbn [f_hosts]. destruct (decide (a0 = a)) as [->|Hne].
+    - rewrite lookup_insert. intros [= <-]. exists fh. done.
+    - rewrite lookup_insert_ne by done. intros H0. exists fh0. split; [done|]. split; [done|]. by apply (mp_hosts _ _ HC a0). }
+  (* the versions after the report *)
+  assert (Hcase' : ∀ s h c, f_hist st !! s = Some h → d_view (f_db st) !! s = Some c →
+            ∃ c', d_view d' !! s = Some c' ∧ (s_cci c' = s_cci c ∨ s_cci c' = cur_version h) ∧
+                  (s_cci c = cur_version h → s_cci c' = cur_version h) ∧
+                  ((∃ rid lr, fh_reps fh !! (s, rid) = Some lr ∧ lr_running lr = true ∧ lr_ver lr = cur_version h) → s_cci c' = cur_version h)).
+  { intros s h c Hh Hc. destruct (Hvers s h c Hh Hc) as (c' & Hc' & Hlo & Hhi & _). exists c'. split; [done|].
+    destruct (mp_members _ _ HC s h Hh) as (c0 & Hc0 & Hcase & _). assert (c0 = c) as -> by congruence.
+    destruct Hcase as [Hcc|(v & M & M' & x & rest & Hhh & Hv & Hkind)].
+    - split; [left; lia|]. split; [intros _; lia|intros _; lia].
+    - assert (Hcv : cur_version h = v + 1) by (rewrite Hhh; done).
+      split; [lia|]. split; [lia|]. intros (rid & lr & Hk & Hrun & Hver).
+      (* the complete entry of that replica *)
+      pose proof (view_update_grows _ _ _ _ _ _ s Hvu) as Hg. unfold ver in Hg. rewrite F4 in Hc'. rewrite Hc, Hc' in Hg. cbn in Hg.
+      destruct Hg as (_ & _ & Hmax). assert (Hin : v + 1 ∈ entry_versions s (rp_infos (stamp (f_db st) r))); [|specialize (Hmax _ Hin); lia].
+      unfold entry_versions. apply elem_of_list_bind. exists (rep_info (view_vers (f_db st)) (f_hist st) (s, rid) lr). split.
+      + unfold rep_info. cbn [fst snd]. assert ((lr_ver lr =? 0) = false) as -> by (apply N.eqb_neq; lia).
+        unfold view_vers. rewrite lookup_fmap, Hc. cbn. assert ((lr_ver lr <=? s_cci c) = false) as -> by (apply N.leb_gt; lia).
+        rewrite decide_True by done. cbn. rewrite Hver, Hcv. left.
+      + cbn [stamp rp_infos]. unfold r, host_report. cbn [rp_infos]. apply elem_of_list_fmap. exists ((s, rid), lr). split; [done|].
+        apply elem_of_list_filter. split; [done|]. unfold sorted_reps. rewrite merge_sort_Permutation. by apply elem_of_map_to_list. }
+  assert (Hsub2 : ∀ b q, boxed_at st2 b q → boxed_at st b q).
+  { intros b q Hq. rewrite Hst2 in Hq. unfold boxed_at in Hq |- *. cbn [f_db f_hosts] in Hq.
+    destruct Hq as [(qs & Hl & Hin)|[(qs & Hl & Hin)|(fhb & Hb & Hin)]].
+    + left. exists qs. split; [by apply F7|done].
+    + destruct (F8 _ _ Hl) as [Ho|Ho]; [right; left|left]; eauto.
+    + destruct (decide (b = a)) as [->|Hne].
+      * rewrite lookup_insert in Hb. injection Hb as <-. cbn [fh_queue] in Hin. apply elem_of_app in Hin as [Hin|Hin].
+        -- right; right. eauto.
+        -- destruct (d_requests (f_db st) !! a) as [qs|] eqn:Eq; [|by apply elem_of_nil in Hin]. left. eauto.
+      * rewrite lookup_insert_ne in Hb by done. right; right. eauto. }
+  split.
+  { split; [exact HI2|]. split.
+    - eapply fstep_time_ok; [exact E2|]. eapply fstep_time_ok; [exact E1|]. apply (mp_timeok _ _ HC).
+    - cbn [st2 f_db]. rewrite Htick. apply (mp_time _ _ HC).
+    - cbn [st2 f_db f_hist]. rewrite F3. apply (mp_defined _ _ HC).
+    - cbn [st2 f_db f_hist]. rewrite F3. intros s [c' Hc']. apply (mp_viewdef _ _ HC). by apply (Hviewdom s c').
+    - intros a0 fh0 H0. destruct (Hrepsame a0 fh0 H0) as (_ & _ & _ & ? & ?). done.
+    - cbn [st2 f_db]. rewrite F5. exact Hkill'.
+    - intros b q Hq. destruct (mp_boxes _ _ HC b q (Hsub2 b q Hq)) as [?|[Hl HR]]; [by left|right]. split.
+      + apply (lchange_shrink (boxed_at st)); [exact Hsub2|]. rewrite Hst2. cbn [f_hosts f_hist].
+        apply (lchange_frame _ (f_hosts st) _ (f_hist st) (f_hist st)); [done| | |done].
+        * intros a0 [fh0 H0]. destruct (decide (a0 = a)) as [->|Hne]; [rewrite lookup_insert; by eexists|rewrite lookup_insert_ne by done; by eexists].
+        * intros a0 fh' k H0 Hk _. destruct (decide (a0 = a)) as [->|Hne].
+          -- rewrite lookup_insert in H0. injection H0 as <-. by exists fh.
+          -- rewrite lookup_insert_ne in H0 by done. by exists fh'.
+      + (* the view of a shard with a live request stays current, its members stay stamped *)
+        destruct HR as (c & Hc & Hcc & Hstq). destruct Hl as (_ & Hfq & _).
+        destruct (mp_viewdef _ _ HC (q_shard q)) as [_ [h Hh]]; [by eexists|].
+        assert (Hcur : s_cci c = cur_version h) by (rewrite Hcc, Hfq; unfold Fleet.hist_of; by rewrite Hh).
+        destruct (Hcase' (q_shard q) h c Hh Hc) as (c' & Hc' & _ & Hkeep & _). specialize (Hkeep Hcur).
+        exists c'. cbn [st2 f_db]. split; [done|]. split; [congruence|].
+        intros rid n' Hn'. assert (Hrec' : rec_of (d_view d') (q_shard q) rid = Some n') by (apply rec_of_Some; eauto).
+        destruct (Hticks (q_shard q) rid n' Hrec') as [(n & Hrec & _ & Htk)|(Hnone & _ & _)].
+        * rewrite Htk. destruct (runs_on fh (q_shard q) rid); [pose proof (mp_time _ _ HC); lia|].
+          apply rec_of_Some in Hrec as (c1 & Hc1 & Hn1). assert (c1 = c) as -> by congruence. by apply (Hstq rid n).
+        * exfalso. destruct (Hview2 (q_shard q) c' Hc') as (_ & HH' & _). destruct (li_view _ _ _ _ _ HI (q_shard q) c Hc) as (_ & HH & _).
+          rewrite Hkeep in HH'. rewrite Hcur in HH. rewrite HH in HH'. injection HH' as HH'.
+          assert (is_Some ((r_addr <$> s_reps c) !! rid)) as Hs by (rewrite HH', lookup_fmap, Hn'; by eexists).
+          rewrite lookup_fmap in Hs. apply fmap_is_Some in Hs as [n0 Hn0].
+          assert (rec_of (d_view (f_db st)) (q_shard q) rid = Some n0) by (apply rec_of_Some; eauto). congruence.
+    - (* members *)
+      cbn [st2 f_db f_hist]. intros s h Hh. destruct (mp_members _ _ HC s h Hh) as (c & Hc & Hcase & Hmem).
+      destruct (Hcase' s h c Hh Hc) as (c' & Hc' & Hor & Hkeep & _). exists c'. split; [done|]. split.
+      { destruct Hor as [Heq|Hcur]; [|by left]. destruct Hcase as [Hcc|(v & M & M' & x & rest & Hhh & Hv & Hkind)]; [left; congruence|].
+        right. exists v, M, M', x, rest. split; [done|]. split; [congruence|done]. }
+      intros rid a0 Hm. destruct (Hmem rid a0 Hm) as (Hr0 & Ha0 & fh0 & Hfh0 & Hdata). split; [done|]. split; [done|].
+      assert (Hdata' : stamped d' s rid → is_Some (fh_reps fh0 !! (s, rid))).
+      { intros Hst. destruct (Hstamped s rid Hst) as [Hold|Erun]; [by apply Hdata|].
+        unfold runs_on in Erun. destruct (fh_reps fh !! (s, rid)) as [lr|] eqn:Ek; [|done].
+        assert (a0 = a) as -> by (by apply (mp_home _ _ HC a fh s rid lr h a0)). assert (fh0 = fh) as -> by congruence. by eexists. }
+      rewrite Hst2. cbn [f_hosts]. destruct (decide (a0 = a)) as [->|Hne].
+      + rewrite lookup_insert. assert (fh0 = fh) as -> by congruence. eexists. split; [done|]. exact Hdata'.
+      + rewrite lookup_insert_ne by done. eauto.
+    - (* still behind: nothing happened to the shard *)
+      cbn [st2 f_db f_hist]. intros s h c' v M M' x rest Hh Hc' (Hhh & Hv & Hkind).
+      destruct (Hviewdom s c' Hc') as [c Hc]. destruct (Hvers s h c Hh Hc) as (c2 & Hc2 & Hlo & _). assert (c2 = c') as -> by congruence.
+      destruct (mp_members _ _ HC s h Hh) as (c0 & Hc0 & Hcase & _). assert (c0 = c) as -> by congruence.
+      assert (Hbc : behind h c v M M' x rest).
+      { destruct Hcase as [Hcc|(v1 & M1 & M1' & x1 & rest1 & Hhh1 & Hv1 & Hkind1)].
+        - rewrite Hhh in Hcc. cbn in Hcc. lia.
+        - rewrite Hhh in Hhh1. injection Hhh1 as Hv2 _ _ _. assert (v1 = v) as -> by lia. split; [done|]. split; [done|done]. }
+      destruct (mp_behind _ _ HC s h c v M M' x rest Hh Hc Hbc) as (Hst & Hxrun & Hknow). split; [|split].
+      + intros rid n' Hn'. assert (Hrec' : rec_of (d_view d') s rid = Some n') by (apply rec_of_Some; eauto).
+        destruct (Hticks s rid n' Hrec') as [(n & Hrec & _ & Htk)|(Hnone & _ & _)].
+        * rewrite Htk. destruct (runs_on fh s rid); [pose proof (mp_time _ _ HC); lia|].
+          apply rec_of_Some in Hrec as (c1 & Hc1 & Hn1). assert (c1 = c) as -> by congruence. by apply (Hst rid n).
+        * (* a record that was not there: the view would have moved *)
+          exfalso. destruct (Hview2 s c' Hc') as (_ & HH' & _). destruct (li_view _ _ _ _ _ HI s c Hc) as (_ & HH & _).
+          rewrite Hv in HH'. destruct Hbc as (_ & Hvc & _). rewrite Hvc in HH. rewrite HH in HH'. injection HH' as HH'.
+          assert (is_Some ((r_addr <$> s_reps c) !! rid)) as Hs by (rewrite HH', lookup_fmap, Hn'; by eexists).
+          rewrite lookup_fmap in Hs. apply fmap_is_Some in Hs as [n0 Hn0].
+          assert (rec_of (d_view (f_db st)) s rid = Some n0) by (apply rec_of_Some; eauto). congruence.
+      + intros HMx a0 fh0 lr H0 Hk. destruct (Hrepsame a0 fh0 H0) as (fh' & Hfh' & Hreps & _). rewrite Hreps in Hk. by apply (Hxrun HMx a0 fh').
+      + destruct Hknow as (a0 & fh0 & rid & lr & H0 & Hk & Hrun & Hver). exists a0. rewrite Hst2. cbn [f_hosts].
+        destruct (decide (a0 = a)) as [->|Hne].
+        * rewrite lookup_insert. assert (fh0 = fh) as -> by congruence. eexists _, rid, lr. split; [done|]. done.
+        * rewrite lookup_insert_ne by done. eauto 10.
+    - (* waiting records have a first-observed time *)
+      cbn [st2 f_db]. intros s c' rid n' Hc' Hn' Hz. assert (Hrec : rec_of (d_view d') s rid = Some n') by (apply rec_of_Some; eauto).
+      destruct (Hticks s rid n' Hrec) as [(n0 & Hn0 & Hfi & Htk)|(_ & Hfi & _)].
+      + rewrite Hfi. rewrite Htk in Hz. destruct (runs_on fh s rid); [pose proof (mp_time _ _ HC); lia|].
+        apply rec_of_Some in Hn0 as (c0 & Hc0 & Hn0). by apply (mp_waiting _ _ HC s c0 rid n0).
+      + rewrite Hfi. pose proof (mp_time _ _ HC). lia.
+    - (* at most one waiting record per shard *)
+      cbn [st2 f_db]. intros s c' r1 r2 n1 n2 Hc' H1 H2 Hz1 Hz2.
+      assert (Hrec1 : rec_of (d_view d') s r1 = Some n1) by (apply rec_of_Some; eauto).
+      assert (Hrec2 : rec_of (d_view d') s r2 = Some n2) by (apply rec_of_Some; eauto).
+      pose proof (mp_time _ _ HC) as Hpos.
+      destruct (Hviewdom s c' Hc') as [c Hc]. destruct (mp_viewdef _ _ HC s) as [_ [h Hh]]; [by eexists|].
+      destruct (mp_members _ _ HC s h Hh) as (c0 & Hc0 & Hcase & _). assert (c0 = c) as -> by congruence.
+      (* an old waiting record, or a new one *)
+      assert (Hold : ∀ rid n', rec_of (d_view d') s rid = Some n' → r_tick n' = 0 →
+                (∃ n, s_reps c !! rid = Some n ∧ r_tick n = 0) ∨ s_reps c !! rid = None).
+      { intros rid n' Hrec' Hz'. destruct (Hticks s rid n' Hrec') as [(n & Hrec & _ & Htk)|(Hnone & _ & _)].
+        - left. apply rec_of_Some in Hrec as (c1 & Hc1 & Hn1). assert (c1 = c) as -> by congruence. exists n. split; [done|].
+          rewrite Htk in Hz'. destruct (runs_on fh s rid); lia.
+        - right. destruct (s_reps c !! rid) as [n0|] eqn:E0; [|done]. assert (rec_of (d_view (f_db st)) s rid = Some n0) by (apply rec_of_Some; eauto). congruence. }
+      destruct Hcase as [Hcc|(v & M & M' & x & rest & Hb)].
+      + (* current before: no new record *)
+        destruct (Hcase' s h c Hh Hc) as (c2 & Hc2 & _ & Hkeep & _). assert (c2 = c') as -> by congruence.
+        specialize (Hkeep Hcc). destruct (Hview2 s c' Hc') as (_ & HH' & _). destruct (li_view _ _ _ _ _ HI s c Hc) as (_ & HH & _).
+        rewrite Hkeep in HH'. rewrite Hcc in HH. rewrite HH in HH'. injection HH' as HH'.
+        assert (Hin : ∀ rid n', s_reps c' !! rid = Some n' → is_Some (s_reps c !! rid)).
+        { intros rid n' Hn'. rewrite <- (fmap_is_Some r_addr), <- lookup_fmap, HH', lookup_fmap, Hn'. by eexists. }
+        destruct (Hold r1 n1 Hrec1 Hz1) as [(m1 & Hm1 & Hzm1)|Hn1]; [|destruct (Hin r1 n1 H1); congruence].
+        destruct (Hold r2 n2 Hrec2 Hz2) as [(m2 & Hm2 & Hzm2)|Hn2]; [|destruct (Hin r2 n2 H2); congruence].
+        by apply (mp_onejoin _ _ HC s c r1 r2 m1 m2).
+      + (* behind before: every old record has reported; a waiting record is the new member x *)
+        destruct (mp_behind _ _ HC s h c v M M' x rest Hh Hc Hb) as (Hst & _ & _).
+        assert (Hisx : ∀ rid n', s_reps c' !! rid = Some n' → rec_of (d_view d') s rid = Some n' → r_tick n' = 0 → rid = x).
+        { intros rid n' Hn' Hrec' Hz'. destruct (Hold rid n' Hrec' Hz') as [(n & Hnn & Hzn)|Hnone]; [by destruct (Hst rid n Hnn)|].
+          destruct (decide (rid = x)) as [?|Hnx]; [done|]. exfalso.
+          pose proof (behind_other _ _ _ _ _ _ _ rid Hb Hnx) as Hsame. destruct Hb as (Hhh & Hv & _).
+          destruct (Hview2 s c' Hc') as (_ & HH' & _). destruct (li_view _ _ _ _ _ HI s c Hc) as (_ & HH & _).
+          unfold Hf, hist_of in HH, HH'. rewrite Hh in HH, HH'. cbn in HH, HH'. rewrite Hhh in HH, HH'. rewrite Hv in HH. cbn in HH, HH'.
+          assert ((v + 1 =? v) = false) as Hne by (apply N.eqb_neq; lia). rewrite Hne, N.eqb_refl in HH. injection HH as HH.
+          assert (HMr : M !! rid = None) by (rewrite HH, lookup_fmap, Hnone; done).
+          destruct (v + 1 =? s_cci c') eqn:Ev1.
+          - injection HH' as HH'. assert (Hl : M' !! rid = Some (r_addr n')) by (rewrite HH', lookup_fmap, Hn'; done). congruence.
+          - destruct (v =? s_cci c') eqn:Ev2.
+            2:{ destruct (Hvers s h c Hh Hc) as (c3 & Hc3 & Hlo3 & Hhi3 & _). assert (c3 = c') as -> by congruence.
+                rewrite Hhh in Hhi3. cbn in Hhi3. apply N.eqb_neq in Ev1, Ev2. lia. }
+            injection HH' as HH'.
+            assert (Hl : M !! rid = Some (r_addr n')) by (rewrite HH', lookup_fmap, Hn'; done). congruence. }
+        rewrite (Hisx r1 n1 H1 Hrec1 Hz1), (Hisx r2 n2 H2 Hrec2 Hz2). done.
+    - intros a0 fh0 s rid lr h a' H0 Hk. destruct (Hrepsame a0 fh0 H0) as (fh' & Hfh' & Hreps & _). rewrite Hreps in Hk.
+      cbn [st2 f_hist]. by apply (mp_home _ _ HC a0 fh' s rid lr h a').
+    - intros a0 fh0 s rid lr H0 Hk. destruct (Hrepsame a0 fh0 H0) as (fh' & Hfh' & Hreps & _). rewrite Hreps in Hk.
+      cbn [st2 f_hist]. by apply (mp_nostray _ _ HC a0 fh' s rid lr). }
+  split; [exact Hout1|]. split; [exact Hout2|]. split; [exact Hsub2|].
+  split; [done|]. split; [done|]. split; [exact Htick|]. split; [exact F3|]. split; [exact Hreqs|].
+  split; [by rewrite Hst2|]. split; [exact Hcase'|]. split; [exact Hstamped|].
+  cbn [st2 f_db]. rewrite F6. unfold sync_shard_info. split.
+  - rewrite lookup_fmap. unfold host_update. cbn [rp_addr stamp r host_report rp_region rp_plog_incl rp_plog].
+    destruct (d_hosts (f_db st) !! a) as [h0|]; rewrite lookup_insert; cbn; (eexists; split; [done|]); cbn [h_tick h_plog];
+      (split; [done|]); intros -> k [lr Hk]; apply elem_of_list_fmap; exists (k, lr); (split; [done|]);
+      unfold sorted_reps; rewrite merge_sort_Permutation; by apply elem_of_map_to_list.
+  - intros a' h Hne Hh. rewrite lookup_fmap. unfold host_update. cbn [rp_addr stamp r host_report].
+    destruct (d_hosts (f_db st) !! a) as [h0|]; rewrite lookup_insert_ne by done; rewrite Hh; cbn; (eexists; split; [done|]); done.
+Qed.
+
+(** * all hosts report *)
+Lemma mendb_reports (plogs : N → bool) (l : list N) : ∀ st,
+  LoopInv st → MendP (boxed_at st) st → NoDup l → (∀ a, a ∈ l → is_Some (f_hosts st !! a)) →
+  ∃ st', steps P st (l ≫= λ a, [ESnap a (plogs a); EDeliver a false]) = Some st' ∧ (LoopInv st' ∧ MendP (boxed_at st') st') ∧
+    (∀ a, a ∈ l → d_outgoing (f_db st') !! a = d_requests (f_db st) !! a) ∧
+    (∀ a, a ∉ l → d_outgoing (f_db st') !! a = d_outgoing (f_db st) !! a) ∧
+    (∀ b q, boxed_at st' b q → boxed_at st b q) ∧
+    f_hist st' = f_hist st ∧ f_seen st' = f_seen st ∧
+    d_tick (f_db st') = d_tick (f_db st) ∧ d_shards (f_db st') = d_shards (f_db st) ∧
+    (∀ a fh, a ∈ l → f_hosts st !! a = Some fh → ∃ fh', f_hosts st' !! a = Some fh' ∧ fh_reps fh' = fh_reps fh) ∧
+    (∀ a, a ∉ l → f_hosts st' !! a = f_hosts st !! a) ∧
+    (∀ s h c, f_hist st !! s = Some h → d_view (f_db st) !! s = Some c →
+       ∃ c', d_view (f_db st') !! s = Some c' ∧ (s_cci c' = s_cci c ∨ s_cci c' = cur_version h) ∧
+             (s_cci c = cur_version h → s_cci c' = cur_version h) ∧
+             ((∃ a fh rid lr, a ∈ l ∧ f_hosts st !! a = Some fh ∧ fh_reps fh !! (s, rid) = Some lr ∧ lr_running lr = true ∧
+                              lr_ver lr = cur_version h) → s_cci c' = cur_version h)) ∧
+    (∀ s rid, stamped (f_db st') s rid →
+       stamped (f_db st) s rid ∨ ∃ a fh, a ∈ l ∧ f_hosts st !! a = Some fh ∧ runs_on fh s rid = true) ∧
+    (∀ a fh, a ∈ l → f_hosts st !! a = Some fh →
+       ∃ h, d_hosts (f_db st') !! a = Some h ∧ h_tick h = d_tick (f_db st) ∧
+            (plogs a = true → ∀ k, is_Some (fh_reps fh !! k) → k ∈ h_plog h)) ∧
+    (∀ a h, a ∉ l → d_hosts (f_db st) !! a = Some h →
+       ∃ h', d_hosts (f_db st') !! a = Some h' ∧ h_tick h' = h_tick h ∧ h_plog h' = h_plog h).
+Proof.
+  induction l as [|a l IH]; intros st HI HC Hnd Hl.
+  { exists st. cbn. split; [done|]. split; [done|]. split; [intros a Hin; by apply elem_of_nil in Hin|]. repeat (split; [done|]).
+    split; [intros a fh Hin; by apply elem_of_nil in Hin|]. split; [done|].
+    split. { intros s h c Hh Hc. exists c. split; [done|]. split; [by left|]. split; [done|].
+             intros (a & fh & rid & lr & Hin & _). by apply elem_of_nil in Hin. }
+    split; [intros s rid Hs; by left|].
+    split; [intros a fh Hin; by apply elem_of_nil in Hin|]. intros a h _ Hh. by exists h. }
+  apply NoDup_cons in Hnd as [Hnotin Hnd].
+  destruct (Hl a) as [fh Ha]; [left|].
+  destruct (mendb_report st a fh (plogs a) HI HC Ha) as (st1 & E1 & [HI1 HC1] & Ho1a & Ho1b & Hsub1 & Hhi1 & Hse1 & Ht1 & Hsh1 & Hrq1 & Hho1 & Hv1 & Hst1 & Hsp1 & Hot1).
+  destruct (IH st1 HI1 HC1 Hnd) as (st2 & E2 & HC2 & Ho2a & Ho2b & Hsub2 & Hhi2 & Hse2 & Ht2 & Hsh2 & Hh1 & Hh2 & Hv2 & Hst2 & Hsp2 & Hot2).
+  { intros a' Hin. rewrite Hho1. destruct (decide (a' = a)) as [->|Hne]; [by rewrite lookup_insert|].
+    rewrite lookup_insert_ne by done. apply Hl. by right. }
+  assert (Hreps1 : ∀ a' fh', f_hosts st !! a' = Some fh' → ∃ fh1, f_hosts st1 !! a' = Some fh1 ∧ fh_reps fh1 = fh_reps fh').
+  { intros a' fh' Hfh'. rewrite Hho1. destruct (decide (a' = a)) as [->|Hne].
+    - rewrite lookup_insert. assert (fh' = fh) as -> by congruence. by eexists.
+    - rewrite lookup_insert_ne by done. by exists fh'. }
+  exists st2. split.
+  { rewrite bind_cons, steps_app, E1. exact E2. }
+  split; [done|].
+  split.
+  { intros a' Hin. apply elem_of_cons in Hin as [->|Hin].
+    - rewrite (Ho2b a Hnotin). exact Ho1b.
+    - rewrite (Ho2a a' Hin), Hrq1. apply lookup_delete_ne. intros ->. done. }
+  split.
+  { intros a' Hnin. apply not_elem_of_cons in Hnin as [Hne Hnin]. rewrite (Ho2b a' Hnin). by apply Ho1a. }
+  split; [intros b q Hq; apply Hsub1; by apply Hsub2|].
+  split; [congruence|]. split; [congruence|]. split; [congruence|]. split; [congruence|].
+  split.
+  { intros a' fh' Hin Hfh'. destruct (Hreps1 a' fh' Hfh') as (fh1 & Hfh1 & Hr1). apply elem_of_cons in Hin as [->|Hin].
+    - rewrite Hh2 by done. exists fh1. done.
+    - destruct (Hh1 a' fh1 Hin Hfh1) as (fh2 & Hfh2 & Hr2). exists fh2. split; [done|]. congruence. }
+  split. { intros a' Hnin. apply not_elem_of_cons in Hnin as [Hne Hnin]. rewrite Hh2 by done. rewrite Hho1. by rewrite lookup_insert_ne. }
+  split.
+  { intros s h c Hh Hc. destruct (Hv1 s h c Hh Hc) as (c1 & Hc1 & Hor1 & Hk1 & Hkn1).
+    destruct (Hv2 s h c1) as (c2 & Hc2 & Hor2 & Hk2 & Hkn2); [by rewrite Hhi1|done|].
+    exists c2. split; [done|]. split; [|split].
+    - destruct Hor2 as [Heq|Hcur]; [|by right]. rewrite Heq. exact Hor1.
+    - intros Hcc. apply Hk2. by apply Hk1.
+    - intros (a' & fh' & rid & lr & Hin & Hfh' & Hk & Hrun & Hver). apply elem_of_cons in Hin as [->|Hin].
+      + assert (fh' = fh) as -> by congruence. apply Hk2. apply Hkn1. eauto.
+      + destruct (Hreps1 a' fh' Hfh') as (fh1 & Hfh1 & Hr1). apply Hkn2. exists a', fh1, rid, lr. rewrite Hr1. done. }
+  split.
+  { intros s rid Hs2. destruct (Hst2 s rid Hs2) as [Hs1|(a' & fh1 & Hin & Hfh1 & Hrun)].
+    - destruct (Hst1 s rid Hs1) as [?|Hrun]; [by left|]. right. exists a, fh. split; [left|done].
+    - right. assert (a' ≠ a) as Hne by (intros ->; done). rewrite Hho1, lookup_insert_ne in Hfh1 by done.
+      exists a', fh1. split; [by right|done]. }
+  split.
+  { intros a' fh' Hin Hfh'. apply elem_of_cons in Hin as [->|Hin].
+    - assert (fh' = fh) as -> by congruence. destruct Hsp1 as (h1 & Hh1' & Htk & Hpl).
+      destruct (Hot2 a h1 Hnotin Hh1') as (h2 & Hh2' & Htk' & Hpl'). exists h2. split; [done|]. split; [congruence|]. rewrite Hpl'. done.
+    - destruct (Hreps1 a' fh' Hfh') as (fh1 & Hfh1 & Hr).
+      destruct (Hsp2 a' fh1 Hin Hfh1) as (h2 & Hh2' & Htk' & Hpl'). exists h2. split; [done|]. split; [congruence|]. by rewrite <- Hr. }
+  intros a' h Hnin Hh. apply not_elem_of_cons in Hnin as [Hne Hnin].
+  destruct (Hot1 a' h Hne Hh) as (h1 & Hh1' & Htk & Hpl). destruct (Hot2 a' h1 Hnin Hh1') as (h2 & Hh2' & Htk' & Hpl').
+  exists h2. split; [done|]. split; congruence.
+Qed.
+
